@@ -3,7 +3,10 @@ from __future__ import annotations
 
 import ast
 
+from typing import Optional
+
 from checks.c03 import escape_table_rules
+from vlib import h_c07 as H
 from vlib import truthy
 from vlib.core import AnalysisError, Repo, Report, norm, own_nodes
 
@@ -25,9 +28,40 @@ EXPLANATION = (
 )
 
 
-def _features_hash(fn: ast.AST) -> set[tuple[str, str]]:
+def _field_feature(e: ast.AST, who: str, D=None, expand=None, depth: int = 0) -> "tuple[str, str] | None":
+    """(field, normaliser) when e is a field of <who> as __eq__ / __hash__ read it: who._x, who._x.lower(), `who._x.lower() if who._x else None`
+    (the arm for a value that is there), a local name bound once to one of these, or a call f(who._x) of a def - replaced by what it returns when
+    it is one expression (`expand`), else the normaliser is the def itself, which is the same function on both sides"""
+    if depth > 6:
+        return None
+    if isinstance(e, ast.Name) and D is not None:
+        r = D.resolve(e)
+        return _field_feature(r, who, D, expand, depth + 1) if r is not e else None
+    if isinstance(e, ast.IfExp):
+        return _field_feature(e.body, who, D, expand, depth + 1)
+    if isinstance(e, ast.Call) and not (isinstance(e.func, ast.Attribute) and not e.args and not e.keywords):
+        if expand is not None:
+            x = expand(e)
+            if norm(x) != norm(e):
+                return _field_feature(x, who, D, expand, depth + 1)
+        if len(e.args) == 1 and not e.keywords and isinstance(e.func, ast.Name) and e.func.id not in ("hash", "str"):
+            inner = _field_feature(e.args[0], who, D, expand, depth + 1)
+            if inner is not None:
+                return inner[0], ".".join(x for x in (inner[1], e.func.id + "()") if x)
+        return None
+    chain = []
+    while isinstance(e, ast.Call) and isinstance(e.func, ast.Attribute) and not e.args and not e.keywords:
+        chain.append(e.func.attr)
+        e = e.func.value
+    if isinstance(e, ast.Attribute) and isinstance(e.value, ast.Name) and e.value.id == who:
+        return e.attr, ".".join(reversed(chain))
+    return None
+
+
+def _features_hash(fn: ast.AST, expand=None) -> set[tuple[str, str]]:
     """(field, normaliser) pairs read by a __hash__ body"""
     out = set()
+    D = H.Defs(fn)
     for c in ast.walk(fn):
         if isinstance(c, ast.Call):
             f = norm(c.func)
@@ -35,19 +69,22 @@ def _features_hash(fn: ast.AST) -> set[tuple[str, str]]:
                 out.add(("str", ""))
             if f == "hash" and c.args:
                 a = c.args[0]
+                feat = _field_feature(a, "self", D, expand)
+                if feat is not None:
+                    out.add(feat)
+                    continue
                 chain = []
                 while isinstance(a, ast.Call) and isinstance(a.func, ast.Attribute) and not a.args:
                     chain.append(a.func.attr)
                     a = a.func.value
-                if isinstance(a, ast.Attribute) and isinstance(a.value, ast.Name) and a.value.id == "self":
-                    out.add((a.attr, ".".join(reversed(chain))))
-                elif norm(a) in ("self", "str(self)"):
+                if norm(a) in ("self", "str(self)"):
                     out.add(("str", ".".join(reversed(chain))))
     return out
 
 
-def _features_eq(fn: ast.AST) -> set[tuple[str, str]]:
+def _features_eq(fn: ast.AST, expand=None) -> set[tuple[str, str]]:
     out = set()
+    D = H.Defs(fn)
     for c in ast.walk(fn):
         if isinstance(c, ast.Call) and norm(c.func) == "str.__eq__":
             out.add(("str", ""))
@@ -56,35 +93,22 @@ def _features_eq(fn: ast.AST) -> set[tuple[str, str]]:
             if norm(l) == "str(self)" and norm(r) == "str(other)":
                 out.add(("str", ""))
                 continue
-
-            def feat(e, who):
-                # self._x  |  self._x.lower() if self._x else None  | self._x.lower()
-                if isinstance(e, ast.IfExp):
-                    e = e.body
-                chain = []
-                while isinstance(e, ast.Call) and isinstance(e.func, ast.Attribute) and not e.args:
-                    chain.append(e.func.attr)
-                    e = e.func.value
-                if isinstance(e, ast.Attribute) and isinstance(e.value, ast.Name) and e.value.id == who:
-                    return (e.attr, ".".join(reversed(chain)))
-                return None
-            fl, fr = feat(l, "self"), feat(r, "other")
+            fl, fr = _field_feature(l, "self", D, expand), _field_feature(r, "other", D, expand)
             if fl and fr and fl == fr:
                 out.add(fl)
     return out
 
 
-def run(repo: Repo, rep: Report) -> None:
-    rep.extra["explanation"] = EXPLANATION
+def _rule_a_eq_hash(repo: Repo, rep: Report) -> None:
     tm = repo.mod("rdflib.term")
     typed = repo.typed
     classes = [c for c in typed.subclasses("rdflib.term.Node") if c.startswith("rdflib.term.")]
     if len(classes) < 8:
         raise AnalysisError("expected >= 8 Node classes in term.py, found %s" % classes)
 
-    # ------------------------------------------------------------------ (a)
     rep.rule("C07.a-eq-hash-coherent",
-             "a term class that defines __eq__ also defines/re-binds __hash__, and every (field, normaliser) its hash reads is compared by its __eq__ with the same normaliser", floor=6)
+             "a term class that defines __eq__ also defines/re-binds __hash__, and every (field, normaliser) its hash reads is compared by its __eq__ with the same normaliser "
+             "(a normaliser applied in place, through a local, or by a def of the package - a one-expression def stands for its expression)", floor=6)
     for c in sorted(classes):
         cname = c.rsplit(".", 1)[1]
         cd = tm.cls(cname)
@@ -99,9 +123,12 @@ def run(repo: Repo, rep: Report) -> None:
                "" if has_eq == has_hash else "%s defines __eq__ without __hash__: instances become unhashable / inherit an incoherent hash" % cname, node=cd)
         if not has_eq:
             continue
-        eqf = _features_eq(meths["__eq__"])
+        def expand(e: ast.AST, _cname=cname) -> ast.AST:
+            return H.expand_calls(repo, tm, e, _cname)
+
+        eqf = _features_eq(meths["__eq__"], expand)
         if "__hash__" in meths:
-            hf = _features_hash(meths["__hash__"])
+            hf = _features_hash(meths["__hash__"], expand)
         else:
             hf = {("str", "")} if rebinds.get("__hash__") == "str.__hash__" else set()
             if not hf:
@@ -116,7 +143,10 @@ def run(repo: Repo, rep: Report) -> None:
                    ("__eq__ compares %s as %s but __hash__ reads it as %s: equal terms can hash differently (sets, dict keys and graphs then keep both)" % (feat[0], same_field[0][1] or "raw", feat[1] or "raw")
                     if same_field else "__hash__ reads %s which __eq__ does not compare" % feat[0]), node=meths.get("__hash__", cd))
 
-    # ------------------------------------------------------------------ (b)
+
+# ---------------------------------------------------------------------- (b)
+def _rule_b_ordering(repo: Repo, rep: Report) -> None:
+    tm = repo.mod("rdflib.term")
     rep.rule("C07.b-ordering-table-and-mirrors",
              "_ORDERING ranks are distinct with BNode < Variable < URIRef < Literal; Identifier.__lt__/__gt__ have the same guard chain, look ranks up "
              "with the same key expression for both operands, and use the operator of their name; guards on `other` are by identity", floor=8)
@@ -164,7 +194,10 @@ def run(repo: Repo, rep: Report) -> None:
             if f is not None:
                 truthy.scan(repo, rep, "C07.b-ordering-table-and-mirrors", tm, f, "%s.%s" % (cname, name), extra_types=operand)
 
-    # ------------------------------------------------------------------ (c)
+
+# ---------------------------------------------------------------------- (c)
+def _rule_c_pickle(repo: Repo, rep: Report) -> None:
+    tm = repo.mod("rdflib.term")
     rep.rule("C07.c-pickle-covers-eq-fields",
              "__reduce__ of URIRef/BNode/Variable rebuilds from str(self); Literal.__reduce__ passes the lexical form, language and datatype; "
              "Literal.__getstate__ and __setstate__ use the same keys and restore the fields __eq__ compares", floor=6)
@@ -217,10 +250,14 @@ def run(repo: Repo, rep: Report) -> None:
     rep.ob("C07.c-pickle-covers-eq-fields", tm, "Literal.__getstate__/__setstate__", "keys %s -> %s" % (sorted(gkeys), skeys), ok,
            "" if ok else "getstate keys %s and setstate reads %s do not restore _language/_datatype consistently" % (sorted(gkeys), skeys), node=lm["__setstate__"])
 
-    # ------------------------------------------------------------------ (d)  n3() text form: string escape tables (shared with C03)
+
+# ---------------------------------------------------------------------- (d)  n3() text form: string escape tables (shared with C03)
+def _rule_d_escape_tables(repo: Repo, rep: Report) -> None:
     escape_table_rules(repo, rep, "C07.d-n3-string-escapes")
 
-    # ------------------------------------------------------------------ (e)
+
+# ---------------------------------------------------------------------- (e)
+def _rule_e_from_n3_context(repo: Repo, rep: Report) -> None:
     rep.rule("C07.e-from-n3-forwards-context",
              "util.from_n3 passes its resolution context on in the recursive call that resolves a literal's datatype: the caller's namespace manager "
              "(and default / backend) - otherwise a prefixed datatype is resolved against a different prefix table than the one n3() wrote it with", floor=1)
@@ -249,7 +286,9 @@ def run(repo: Repo, rep: Report) -> None:
         rep.ob("C07.e-from-n3-forwards-context", um, "from_n3", c, not missing,
                "forwards %s" % ctx_params if not missing else "the datatype is resolved without the caller's %s: text written by n3(namespace_manager) is read back with another prefix table" % missing, node=c)
 
-    # ------------------------------------------------------------------ (f)
+
+# ---------------------------------------------------------------------- (f)
+def _rule_f_sparql_absolute(repo: Repo, rep: Report) -> None:
     rep.rule("C07.f-sparql-absolute-iri-not-rebased",
              "in the SPARQL prologue, an IRI is handed to base resolution (URIRef(iri, base=...), i.e. urllib's urljoin, which re-assembles and thereby "
              "alters some absolute IRIs: an empty query or empty path parameters are dropped) only under a test that it has no scheme: the n3() text of "
@@ -300,12 +339,11 @@ def run(repo: Repo, rep: Report) -> None:
         rep.ob("C07.f-sparql-absolute-iri-not-rebased", sm, "Prologue.absolutize", "no base resolution through URIRef(base=)", True, "resolution not delegated to urljoin", node=af)
 
 
-_run_base = run
+from vlib.core import layer as _layer  # noqa: E402
 
 
-def run(repo: Repo, rep: Report) -> None:  # noqa: F811
-    _run_base(repo, rep)
-    # ------------------------------------------------------------------ (g)
+# ---------------------------------------------------------------------- (g)
+def _rule_g_sparql_tabs(repo: Repo, rep: Report) -> None:
     rep.rule("C07.g-sparql-text-parsed-with-tabs",
              "pyparsing's parse_string() expands the tabs of its input to spaces unless parseWithTabs() was called on the expression it is invoked on (documented behaviour); "
              "SPARQL string literals may contain a raw tab (it is what Literal.n3() writes), so every grammar element that parseQuery/parseUpdate call parse_string on is set "
@@ -341,7 +379,9 @@ def run(repo: Repo, rep: Report) -> None:  # noqa: F811
     if n_entry == 0:
         raise AnalysisError("parseQuery/parseUpdate: parse_string call not found")
 
-    # ------------------------------------------------------------------ (h)
+
+# ---------------------------------------------------------------------- (h)
+def _rule_h_from_n3_covers(repo: Repo, rep: Report) -> None:
     rep.rule("C07.h-from-n3-covers-what-n3-writes",
              "util.from_n3 has a branch for every bare form Identifier.n3() writes: `?name` is read as a Variable (not swallowed by the fall-through that makes a blank node of "
              "any other text), and a decimal shorthand is not converted through float() (a decimal has arbitrary precision; float's repr of a large one is exponent notation, "
@@ -364,12 +404,6 @@ def run(repo: Repo, rep: Report) -> None:  # noqa: F811
 # ====================================================================== third layer: rules (i) - (q)
 # Structural conditions pinned after the audit round (F121-F141): how Literal() treats lexical forms, what n3()/the
 # Turtle shorthand may write, and the laws of the literal order.  Helpers live in vlib/h_c07.py.
-
-from typing import Optional  # noqa: E402
-
-from vlib import h_c07 as H  # noqa: E402
-
-_run_base2 = run
 
 # converters that take more than the XSD lexical space of the datatype they are registered for (rule k).  The reason is
 # the documented behaviour of the callable; a datatype mapped to one of them needs a pattern in term._lexical_spaces.
@@ -396,19 +430,6 @@ def _second_param(fn: ast.FunctionDef) -> str:
     return fn.args.args[1].arg
 
 
-def run(repo: Repo, rep: Report) -> None:  # noqa: F811
-    _run_base2(repo, rep)
-    tm = repo.mod("rdflib.term")
-    lm = tm.methods("Literal")
-    _rule_i_constructor(repo, rep, tm, lm)
-    _rule_j_duration_sign(repo, rep)
-    _rule_k_converters(repo, rep, tm, lm)
-    _rule_l_backslash_parity(repo, rep)
-    _rule_m_plain_types(repo, rep, tm)
-    _rule_n_written_text(repo, rep, tm, lm)
-    _rule_o_p_q_order(repo, rep, tm, lm)
-
-
 # ---------------------------------------------------------------------- (i)
 def _top_arm(fn: ast.FunctionDef, mod, node: ast.AST) -> list[ast.stmt]:
     """the arm (statement list) of the outermost if/elif chain of fn's body that contains node"""
@@ -430,6 +451,26 @@ def _top_arm(fn: ast.FunctionDef, mod, node: ast.AST) -> list[ast.stmt]:
     raise AnalysisError("%s: statement at line %s is not inside an if-arm of the function body" % (fn.name, getattr(node, "lineno", "?")))
 
 
+def _in_opposite_branches(mod, fn: ast.AST, a: ast.AST, b: ast.AST) -> bool:
+    """a and b sit in the two different branches (body / orelse) of one `if` statement of fn: no path runs through both"""
+    def sides(n: ast.AST) -> dict[int, str]:
+        out: dict[int, str] = {}
+        child = n
+        for p in mod.parents(n):
+            if isinstance(p, ast.If):
+                if any(child is s for s in p.body):
+                    out[id(p)] = "body"
+                elif any(child is s for s in p.orelse):
+                    out[id(p)] = "orelse"
+            if p is fn:
+                break
+            child = p
+        return out
+
+    sa, sb = sides(a), sides(b)
+    return any(k in sb and sb[k] != v for k, v in sa.items())
+
+
 def _rule_i_constructor(repo: Repo, rep: Report, tm, lm) -> None:
     rid = "C07.i-lexical-form-checked-and-kept"
     rep.rule(rid,
@@ -447,7 +488,16 @@ def _rule_i_constructor(repo: Repo, rep: Report, tm, lm) -> None:
     if len(flags) != 1:
         raise AnalysisError("Literal.__new__: the name stored to ._ill_typed not found (%s)" % sorted(flags))
     flag = flags.pop()
-    sites = [c for c in own_nodes(new) if isinstance(c, ast.Call) and norm(c.func) == "_castLexicalToPython" and c.args and norm(c.args[0]) == lex]
+    # names that hold the lexical form / the flag: the parameter and the local stored into the slot, and every local that is a plain
+    # copy of one of them where it is used (a value that is copied into the flag later is the flag: `a, b, flag = x, y, f`)
+    K = H.Copies(new)
+
+    def targets(x: ast.AST) -> list[str]:
+        ts = x.targets if isinstance(x, ast.Assign) else [x.target] if isinstance(x, (ast.AnnAssign, ast.AugAssign)) else []
+        return [n.id for t in ts for n in ast.walk(t) if isinstance(n, ast.Name)]
+
+    sites = [c for c in own_nodes(new) if isinstance(c, ast.Call) and norm(c.func) == "_castLexicalToPython" and c.args and isinstance(c.args[0], ast.Name)
+             and K.same(c.args[0].id, lex, c)]
     if not sites:
         raise AnalysisError("Literal.__new__: no _castLexicalToPython(%s, ...) call" % lex)
     for c in sites:
@@ -456,8 +506,8 @@ def _rule_i_constructor(repo: Repo, rep: Report, tm, lm) -> None:
         par_ = tm.parent.get(id(c))
         vname = norm(par_.targets[0]) if isinstance(par_, ast.Assign) and isinstance(par_.targets[0], ast.Name) else None
         # (1) ill-typedness decided in this arm
-        decides = any(isinstance(x, (ast.Assign, ast.AnnAssign)) and any(isinstance(t, ast.Name) and t.id == flag for t in (x.targets if isinstance(x, ast.Assign) else [x.target]))
-                      for x in arm_nodes)
+        # (an assignment in the other branch of an `if` around the site is not on its path: `if datatype is not None: <site> else: <flag> = <other>.ill_typed`)
+        decides = any(isinstance(x, (ast.Assign, ast.AnnAssign)) and flag in targets(x) and not _in_opposite_branches(tm, new, c, x) for x in arm_nodes)
         rep.ob(rid, tm, "Literal.__new__", "%s: ill-typedness decided in the same arm" % norm(c), decides,
                "" if decides else "this arm takes the value of a lexical form under the datatype without checking that the form is in the lexical space (%s stays None) and "
                "without normalising it: Literal(Literal('01'), datatype=XSD.integer) - what the SPARQL parser builds for \"01\"^^xsd:integer - is not the term "
@@ -467,16 +517,17 @@ def _rule_i_constructor(repo: Repo, rep: Report, tm, lm) -> None:
         for x in arm_nodes:
             if isinstance(x, ast.Assign) and isinstance(x.value, ast.Call) and norm(x.value.func) == "_castPythonToLiteral" and x.value.args and norm(x.value.args[0]) == vname:
                 canon_names |= {n.id for t in x.targets for n in ast.walk(t) if isinstance(n, ast.Name)}
-        repl = [x for x in arm_nodes if isinstance(x, ast.Assign) and norm(x.targets[0]) == lex and isinstance(x.value, ast.Name) and x.value.id in canon_names]
+        repl = [x for x in arm_nodes if isinstance(x, ast.Assign) and len(x.targets) == 1 and isinstance(x.targets[0], ast.Name) and K.flows_into(x, x.targets[0].id, lex)
+                and isinstance(x.value, ast.Name) and x.value.id in canon_names]
         if not repl:
             if decides:
                 raise AnalysisError("Literal.__new__: the arm of %s does not normalise the lexical form - unmodelled" % norm(c))
             continue
         for x in repl:
             at = H.atoms(H.path_conds(tm, new, x))
-            g_ill = any(isinstance(e, ast.Name) and e.id == flag and pol is False for e, pol in at)
+            g_ill = any(isinstance(e, ast.Name) and K.same(e.id, flag, e) and pol is False for e, pol in at)
             g_apx = any(isinstance(e, ast.Call) and norm(e.func) == "_value_is_approximate" and pol is False
-                        and {norm(a) for a in e.args} >= {lex, vname} for e, pol in at)
+                        and any(isinstance(a, ast.Name) and K.same(a.id, lex, a) for a in e.args) and vname in {norm(a) for a in e.args} for e, pol in at)
             rep.ob(rid, tm, "Literal.__new__", "%s under `not %s`" % (norm(x), flag), g_ill,
                    "" if g_ill else "the canonical form of the value replaces the lexical form although the form may be ill-typed: the converters return a made-up value for some "
                    "ill-typed forms (_parseBoolean('yes') is False), so Literal('yes', datatype=XSD.boolean) becomes \"false\"^^xsd:boolean", node=x)
@@ -645,12 +696,57 @@ def _regex_categories(pattern: str) -> set[str]:
     return out
 
 
+def _consulting_defs(repo: Repo, mod, fn: ast.AST, value: ast.AST, table: str, depth: int = 0, seen: Optional[set] = None) -> list[ast.FunctionDef]:
+    """the defs of the package that read the module-level name `table` and that `value` (an expression of fn) depends on: they are called
+    in an expression of the backward slice of value (every binding of every local it is computed from), or - where a local of the slice is
+    one of several results of a call `a, b, c = h(...)` - inside h, in the slice of the result that lands in that local (to depth 3)"""
+    seen = seen if seen is not None else set()
+    out: list[ast.FunctionDef] = []
+    key = (id(fn), norm(value))
+    if depth > 3 or key in seen:
+        return out
+    seen.add(key)
+    D = H.Defs(fn)
+    exprs = H.backward_slice(D, value)
+    names = {n.id for x in exprs for n in ast.walk(x) if isinstance(n, ast.Name)}
+    cls = mod.qual_of(fn).rsplit(".", 1)[0] if "." in mod.qual_of(fn) else None
+    # results of calls that are unpacked into locals of the slice
+    unpacked: list[tuple[ast.Call, Optional[int]]] = []
+    for n in own_nodes(fn):
+        if isinstance(n, ast.Assign) and isinstance(n.value, ast.Call):
+            for t in n.targets:
+                if isinstance(t, (ast.Tuple, ast.List)):
+                    for i, el in enumerate(t.elts):
+                        if isinstance(el, ast.Name) and el.id in names:
+                            unpacked.append((n.value, i))
+    calls: list[tuple[ast.Call, Optional[int]]] = [(c, None) for x in exprs for c in ast.walk(x) if isinstance(c, ast.Call)] + unpacked
+    for c, idx in calls:
+        cal = H.resolve_call(repo, mod, c, cls)
+        if cal is None:
+            continue
+        if any(isinstance(x, ast.Name) and x.id == table for x in ast.walk(cal.fn)):
+            if cal.fn not in out:
+                out.append(cal.fn)
+            continue
+        for r in own_nodes(cal.fn):
+            if not (isinstance(r, ast.Return) and r.value is not None):
+                continue
+            v = r.value
+            if idx is not None and isinstance(v, ast.Tuple) and idx < len(v.elts):
+                v = v.elts[idx]
+            for b in _consulting_defs(repo, cal.mod, cal.fn, v, table, depth + 1, seen):
+                if b not in out:
+                    out.append(b)
+    return out
+
+
 def _rule_k_converters(repo: Repo, rep: Report, tm, lm) -> None:
     rid = "C07.k-lexical-space-not-left-to-lenient-converter"
     rep.rule(rid,
              "every recognised datatype whose lexical-to-value converter in term.XSDToPython accepts more than the XSD lexical space (the Python constructors int/float/Decimal: "
              "'1_000', non-ASCII digits, 'Infinity', '1e3'^^xsd:decimal; the ISO 8601 parsers: '2000'^^xsd:time, basic format, week dates, a bare date for a dateTime) has a pattern "
-             "in term._lexical_spaces, a pattern is free of Unicode-wide classes (\\d, \\w, \\s), Literal.__new__ makes the ill-typed flag depend on that table through a full match, "
+             "in term._lexical_spaces, a pattern is free of Unicode-wide classes (\\d, \\w, \\s), Literal.__new__ makes the ill-typed flag depend on that table (the value stored into _ill_typed is "
+             "computed, in __new__ or in a def whose result it takes, from a call of a def that reads the table) through a full match, "
              "and base64 text is decoded with validate=True: else an ill-typed form gets a value, is taken for well-typed and is rewritten to the canonical form of that value, "
              "i.e. the text of one term is read back as another term", floor=30)
     x2p = []
@@ -712,19 +808,12 @@ def _rule_k_converters(repo: Repo, rep: Report, tm, lm) -> None:
                "'١'^^xsd:integer stays well-typed and is rewritten to '1'" % sorted(cats), node=pe)
     # Literal.__new__ consults the table, by a full match
     new = lm["__new__"]
-    D = H.Defs(new)
     flag_assigns = [n for n in own_nodes(new) if isinstance(n, ast.Assign) and isinstance(n.targets[0], ast.Attribute) and n.targets[0].attr == "_ill_typed"]
     consult = []
     for fa in flag_assigns:
-        fname = norm(fa.value)
-        for v in D.values(fname):
-            if v is None:
-                continue
-            for c in ast.walk(ast.parse(D.expand(v), mode="eval")):
-                if isinstance(c, ast.Call) and isinstance(c.func, ast.Name) and isinstance(tm.defs.get(c.func.id), ast.FunctionDef):
-                    body = tm.func(c.func.id)
-                    if any(isinstance(x, ast.Name) and x.id == "_lexical_spaces" for x in ast.walk(body)):
-                        consult.append(body)
+        for body in _consulting_defs(repo, tm, new, fa.value, "_lexical_spaces"):
+            if body not in consult:
+                consult.append(body)
     ok = bool(consult)
     rep.ob(rid, tm, "Literal.__new__", "the ill-typed flag depends on _lexical_spaces", ok,
            "" if ok else "Literal.__new__ decides ill-typedness from the converter's success alone: every form the lenient Python / ISO 8601 converters accept is well-typed", node=new)
@@ -738,14 +827,14 @@ def _rule_k_converters(repo: Repo, rep: Report, tm, lm) -> None:
 def _rule_l_backslash_parity(repo: Repo, rep: Report) -> None:
     rid = "C07.l-escapedness-by-parity"
     rep.rule(rid,
-             "a function that writes text in which the backslash escapes itself (it doubles backslashes: .replace('\\\\', '\\\\\\\\')) never decides whether a character is already "
+             "a function that writes text in which the backslash escapes itself (it maps every backslash to two: .replace('\\\\', '\\\\\\\\'), or .translate() with a constant "
+             "table that has this entry) never decides whether a character is already "
              "escaped by looking at ONE neighbouring character (x[-2] != '\\\\', x.endswith('\\\\')): after an escaped backslash the neighbour is a backslash too, only the parity of "
              "the run tells.  Literal('a\\n\\\\\"').n3() ended in \\\\\"\"\"\" - the final quote closed the long string early and the text did not read back", floor=2)
     n = 0
     for _, mod in sorted(repo.modules.items()):
         for q, fn in mod.functions():
-            doubles = [c for c in own_nodes(fn) if isinstance(c, ast.Call) and isinstance(c.func, ast.Attribute) and c.func.attr == "replace" and len(c.args) == 2
-                       and all(isinstance(a, ast.Constant) for a in c.args) and c.args[0].value in ("\\", b"\\") and c.args[1].value in ("\\\\", b"\\\\")]
+            doubles = H.backslash_doublings(repo, mod, fn)
             if not doubles:
                 continue
             n += 1
@@ -856,90 +945,221 @@ def _not_ill_typed(at: list, selfname: str) -> bool:
     return False
 
 
-def _rule_n_written_text(repo: Repo, rep: Report, tm, lm) -> None:
-    rid = "C07.n-written-text-is-the-lexical-form"
-    rep.rule(rid,
-             "Literal._literal_n3 writes the literal's own lexical form: (1) a bare token of the Turtle shorthand is the text of the literal itself (str(self) / f'{self}', possibly "
-             "after tests on it), never a text derived from it (s += '.0' wrote \"1\"^^xsd:decimal as 1.0; .lower() / the value wrote \"1\"^^xsd:boolean as 1, an integer) - "
-             "the parser takes the token for the lexical form; (2) the shorthand is used only for literals that are not ill-typed (an ill-typed form is not a token of the grammar); "
-             "(3) in the quoted form the text bound from self._quote_encode() is not rewritten afterwards", floor=5)
-    fn = lm.get("_literal_n3")
-    if fn is None:
-        raise AnalysisError("Literal._literal_n3 vanished")
-    rep.analysed("rdflib/term.py:Literal._literal_n3")
-    me = _self_param(fn)
+class _Frame:
+    """one function on the way from Literal._literal_n3 to a token: the name the literal has there and what is known where the
+    token is computed (tests of the enclosing arms, negated tests of the guard clauses passed)"""
+
+    def __init__(self, mod, fn: ast.AST, lit: Optional[str], facts: list):
+        self.mod, self.fn, self.lit, self.facts = mod, fn, lit, list(facts)
+        self.D = H.Defs(fn)
+
+
+class _Token:
+    """an expression whose value Literal._literal_n3 returns as a bare token: `expr`, evaluated at statement `at` of the last frame"""
+
+    def __init__(self, expr: ast.AST, at: ast.AST, frames: list):
+        self.expr, self.at, self.frames = expr, at, frames
+
+    @property
+    def last(self) -> "_Frame":
+        return self.frames[-1]
+
+
+def _shorthand_block(tm, fn: ast.AST) -> ast.If:
     blocks = [s for s in own_nodes(fn) if isinstance(s, ast.If) and any(isinstance(x, ast.Name) and x.id == "_PLAIN_LITERAL_TYPES" for x in ast.walk(s.test))]
     if len(blocks) != 1:
         raise AnalysisError("Literal._literal_n3: the shorthand block (test on _PLAIN_LITERAL_TYPES) not found once (%d)" % len(blocks))
-    blk = blocks[0]
+    return blocks[0]
+
+
+def _shorthand_tokens(repo: Repo, tm, fn: ast.AST, me: str) -> tuple[ast.If, list["_Token"]]:
+    """the bare tokens of the Turtle shorthand: every expression whose value a `return` of the shorthand block of _literal_n3 hands back -
+    written in the block, or returned by a def of the package the block calls for it (followed to depth 3; None stands for 'no token',
+    a conditional expression is split into its arms).  Where the code that picks the token sits is not part of the clause."""
+    blk = _shorthand_block(tm, fn)
+    out: list[_Token] = []
+
+    def follow(frames: list, at: ast.AST, e: ast.AST, depth: int) -> None:
+        fr = frames[-1]
+        for val, conds in H.split_conditional(e):
+            here = frames[:-1] + [_Frame(fr.mod, fr.fn, fr.lit, fr.facts + conds)] if conds else frames
+            if isinstance(val, ast.Constant) and val.value is None:
+                continue  # no token on this path
+            call = val
+            if isinstance(val, ast.Name) and val.id != fr.lit:
+                rv = H.reaching_values(fr.mod, fr.fn, at, val.id)
+                if len(rv) == 1 and isinstance(rv[0], ast.Call):
+                    call = rv[0]
+            cal = None
+            if isinstance(call, ast.Call) and depth < 3 and not (fr.lit is not None and _own_text(fr.mod, fr.fn, at, val, fr.lit)):
+                cal = H.resolve_call(repo, fr.mod, call, "Literal" if fr.mod is tm else None)
+                if cal is not None and cal.fn is fn:
+                    cal = None
+            if cal is None:
+                out.append(_Token(val, at, here))
+                continue
+            lit = cal.param_of(lambda a: isinstance(a, ast.Name) and a.id == fr.lit) if fr.lit is not None else None
+            rets = [r for r in own_nodes(cal.fn) if isinstance(r, ast.Return) and r.value is not None]
+            if not rets:
+                out.append(_Token(val, at, here))
+                continue
+            for r in rets:
+                follow(here + [_Frame(cal.mod, cal.fn, lit, H.facts_at(cal.mod, cal.fn, r))], r, r.value, depth + 1)
+
     rets = [r for s in blk.body for r in ast.walk(s) if isinstance(r, ast.Return) and r.value is not None
             and not (isinstance(r.value, ast.Call) and norm(r.value.func) == me + "._literal_n3")]
     if not rets:
         raise AnalysisError("Literal._literal_n3: the shorthand block returns no bare token")
     for r in rets:
-        ok = _own_text(tm, fn, r, r.value, me)
-        shown = norm(r.value)
+        follow([_Frame(tm, fn, me, H.facts_at(tm, fn, r))], r, r.value, 0)
+    return blk, out
+
+
+def _quoted_text_rewrites(repo: Repo, mod, fn: ast.AST, q: str, exempt, depth: int = 0) -> tuple[list[tuple[ast.AST, str]], list[str]]:
+    """(re-bindings of the quoted text, defs it passes through unchanged): every binding of the local `q` of fn other than the exempt
+    ones re-binds the text - unless it is `q = h(.., q, ..)` for a def h of the package, in which case the text is followed into h:
+    there the re-bindings of the parameter, and every `return` of something else than the parameter, are the rewrites"""
+    rewrites: list[tuple[ast.AST, str]] = []
+    through: list[str] = []
+    for n in own_nodes(fn):
+        if not (isinstance(n, (ast.Assign, ast.AugAssign, ast.AnnAssign)) and any(isinstance(t, ast.Name) and t.id == q for t in (n.targets if isinstance(n, ast.Assign) else [n.target]))):
+            continue
+        v = getattr(n, "value", None)
+        if v is None or exempt(v):
+            continue
+        cal = H.resolve_call(repo, mod, v, mod.qual_of(fn).rsplit(".", 1)[0] if "." in mod.qual_of(fn) else None) if isinstance(n, (ast.Assign, ast.AnnAssign)) and depth < 3 else None
+        p = cal.param_of(lambda a: isinstance(a, ast.Name) and a.id == q) if cal is not None else None
+        if cal is None or p is None or cal.fn is fn:
+            rewrites.append((n, _subst_name(v, q, None, "QUOTED")))
+            continue
+        inner, th = _quoted_text_rewrites(repo, cal.mod, cal.fn, p, lambda _v: False, depth + 1)
+        for r in own_nodes(cal.fn):
+            if isinstance(r, ast.Return) and not (isinstance(r.value, ast.Name) and r.value.id == p):
+                inner.append((r, _subst_name(r.value, p, None, "QUOTED") if r.value is not None else "None"))
+        rewrites += inner
+        through += [cal.fn.name] + th
+    return rewrites, through
+
+
+def _rule_n_written_text(repo: Repo, rep: Report, tm, lm) -> None:
+    rid = "C07.n-written-text-is-the-lexical-form"
+    rep.rule(rid,
+             "Literal._literal_n3 writes the literal's own lexical form: (1) a bare token of the Turtle shorthand - an expression a `return` of the shorthand block hands back, "
+             "written there or in a def the block calls for it - is the text of the literal itself (str(self) / f'{self}', possibly "
+             "after tests on it), never a text derived from it (s += '.0' wrote \"1\"^^xsd:decimal as 1.0; .lower() / the value wrote \"1\"^^xsd:boolean as 1, an integer) - "
+             "the parser takes the token for the lexical form; (2) the shorthand is used only for literals that are not ill-typed (an ill-typed form is not a token of the grammar): "
+             "a test of ill_typed holds where the token is computed, in _literal_n3 or in that def; (3) in the quoted form the text bound from self._quote_encode() is not rewritten "
+             "afterwards, neither in _literal_n3 nor in a def it is handed to and taken back from", floor=5)
+    fn = lm.get("_literal_n3")
+    if fn is None:
+        raise AnalysisError("Literal._literal_n3 vanished")
+    rep.analysed("rdflib/term.py:Literal._literal_n3")
+    me = _self_param(fn)
+    blk, tokens = _shorthand_tokens(repo, tm, fn, me)
+    if not tokens:
+        raise AnalysisError("Literal._literal_n3: the shorthand block returns no bare token")
+    for t in tokens:
+        fr = t.last
+        ok = fr.lit is not None and _own_text(fr.mod, fr.fn, t.at, t.expr, fr.lit)
+        shown = norm(t.expr)
         one = None
-        if isinstance(r.value, ast.Name):
-            rv = H.reaching_values(tm, fn, r, r.value.id)
+        if isinstance(t.expr, ast.Name):
+            rv = H.reaching_values(fr.mod, fr.fn, t.at, t.expr.id)
             shown = " | ".join("<augmented>" if v is None else norm(v) for v in rv) or shown
             one = rv[0] if len(rv) == 1 and rv[0] is not None else None
-        # the tests the token went through inside the block (part of the construct: a tested and an untested token differ)
+        # the tests the token went through (part of the construct: a tested and an untested token differ)
         tested = []
-        for e, pol in H.atoms(H.path_conds(tm, blk, r)):
-            if isinstance(r.value, ast.Name) and any(isinstance(x, ast.Name) and x.id == r.value.id for x in ast.walk(e)):
-                tested.append(("" if pol else "not ") + _subst_name(e, r.value.id, one))
+        for e, pol in H.atoms(fr.facts):
+            if isinstance(t.expr, ast.Name) and any(isinstance(x, ast.Name) and x.id == t.expr.id for x in ast.walk(e)):
+                tested.append(("" if pol else "not ") + _subst_name(e, t.expr.id, one))
         if tested:
             shown += " [tested: %s]" % "; ".join(tested)
         rep.ob(rid, tm, "Literal._literal_n3", "bare token: %s" % shown, ok,
                "the literal's own text" if ok else "the token written is not the lexical form of the literal but a text computed from it (%s): the parser reads a bare token as "
-               "the lexical form, so the term read back is another one whenever the two differ" % shown, node=r)
-    unguarded = [r for r in rets if not _not_ill_typed(H.atoms(H.path_conds(tm, fn, r)), me)]
+               "the lexical form, so the term read back is another one whenever the two differ" % shown, node=t.at)
+    unguarded = [t for t in tokens if not any(f.lit is not None and _not_ill_typed(H.atoms(f.facts), f.lit) for f in t.frames)]
     rep.ob(rid, tm, "Literal._literal_n3", "bare tokens only for literals that are not ill-typed", not unguarded,
            "" if not unguarded else "the shorthand block is entered on `%s` alone; an ill-typed literal may have a value (the converters are lenient: '1_000'^^xsd:integer has the value 1000, "
            "'1e3'^^xsd:decimal, 'TRUE'^^xsd:boolean) and its lexical form is then written as a bare token: 1_000 does not parse, 1e3 is read back as an xsd:double"
-           % " and ".join(norm(e) if pol else "not (%s)" % norm(e) for e, pol in H.atoms(H.path_conds(tm, fn, unguarded[0]))[:3]), node=blk)
+           % " and ".join(norm(e) if pol else "not (%s)" % norm(e) for f in unguarded[0].frames for e, pol in H.atoms(f.facts)[:3]), node=blk)
     # (3) quoted path
-    qnames = [norm(n.targets[0]) for n in own_nodes(fn) if isinstance(n, (ast.Assign,)) and isinstance(n.value, ast.Call) and norm(n.value.func) == me + "._quote_encode"
-              and isinstance(n.targets[0], ast.Name)]
-    qnames += [n.target.id for n in own_nodes(fn) if isinstance(n, ast.AnnAssign) and isinstance(n.value, ast.Call) and norm(n.value.func) == me + "._quote_encode" and isinstance(n.target, ast.Name)]
+    def from_encoder(v: ast.AST) -> bool:
+        return isinstance(v, ast.Call) and norm(v.func) == me + "._quote_encode"
+
+    qnames = [norm(n.targets[0]) for n in own_nodes(fn) if isinstance(n, (ast.Assign,)) and from_encoder(n.value) and isinstance(n.targets[0], ast.Name)]
+    qnames += [n.target.id for n in own_nodes(fn) if isinstance(n, ast.AnnAssign) and n.value is not None and from_encoder(n.value) and isinstance(n.target, ast.Name)]
     if not qnames:
         raise AnalysisError("Literal._literal_n3: self._quote_encode() is not bound to a name")
     for q in sorted(set(qnames)):
-        others = [n for n in own_nodes(fn) if isinstance(n, (ast.Assign, ast.AugAssign, ast.AnnAssign))
-                  and any(isinstance(t, ast.Name) and t.id == q for t in (n.targets if isinstance(n, ast.Assign) else [n.target]))
-                  and not (isinstance(getattr(n, "value", None), ast.Call) and norm(n.value.func) == me + "._quote_encode")]
+        others, through = _quoted_text_rewrites(repo, tm, fn, q, from_encoder)
         if not others:
-            rep.ob(rid, tm, "Literal._literal_n3", "the quoted text is self._quote_encode(), unchanged", True, "", node=fn)
-        for n in others:
-            rep.ob(rid, tm, "Literal._literal_n3", "re-binds the quoted text: %s" % _subst_name(n.value, q, None, "QUOTED"), False,
+            rep.ob(rid, tm, "Literal._literal_n3", "the quoted text is self._quote_encode(), unchanged%s" % ("".join(" through %s()" % h for h in through)), True, "", node=fn)
+        for n, shown in others:
+            rep.ob(rid, tm, "Literal._literal_n3", "re-binds the quoted text: %s" % shown, False,
                    "the quoted lexical form is rewritten after encoding: Literal('inf', datatype=XSD.double).n3() is \"INF\"^^xsd:double and Literal(Decimal('Infinity')).n3() is "
                    "\"INF\"^^xsd:decimal - read back, these are other terms than the ones written (the constructor already writes INF / NaN for float values; what is left are "
                    "ill-typed forms and Decimal('Infinity'), which must keep their text)", node=n)
 
 
 # ---------------------------------------------------------------------- (o) (p) (q)
-def _lang_of(D: "H.Defs", e: ast.AST, depth: int = 0) -> Optional[tuple[str, bool]]:
+def _lang_of(D: "H.Defs", e: ast.AST, depth: int = 0, expand=None) -> Optional[tuple[str, bool]]:
     """(whose, case-folded?) when e is the language tag of a literal: x.language / x._language, `... or ""`,
-    `x._language.lower() if x._language else None`, .lower()/.casefold() of one, or a local name bound to one"""
+    `x._language.lower() if x._language else None`, .lower()/.casefold() of one, a local name bound to one, or a call of a
+    one-expression def of the package that returns one of these for its argument (`expand` replaces such calls by what they return)"""
     if depth > 6:
         return None
     if isinstance(e, ast.Attribute) and e.attr in ("language", "_language") and isinstance(e.value, ast.Name):
         return e.value.id, False
     if isinstance(e, ast.BoolOp) and isinstance(e.op, ast.Or) and len(e.values) == 2 and isinstance(e.values[1], ast.Constant):
-        return _lang_of(D, e.values[0], depth + 1)
+        return _lang_of(D, e.values[0], depth + 1, expand)
     if isinstance(e, ast.IfExp):
-        return _lang_of(D, e.body, depth + 1)
+        return _lang_of(D, e.body, depth + 1, expand)
     if isinstance(e, ast.Call) and isinstance(e.func, ast.Attribute) and not e.args and not e.keywords:
-        inner = _lang_of(D, e.func.value, depth + 1)
+        inner = _lang_of(D, e.func.value, depth + 1, expand)
         if inner is not None and e.func.attr in ("lower", "casefold", "upper"):
             return inner[0], True
+        if inner is not None:
+            return None
+    if isinstance(e, ast.Call) and expand is not None:
+        x = expand(e)
+        if norm(x) != norm(e):
+            return _lang_of(D, x, depth + 1, expand)
         return None
     if isinstance(e, ast.Name):
         r = D.resolve(e)
         if r is not e:
-            return _lang_of(D, r, depth + 1)
+            return _lang_of(D, r, depth + 1, expand)
     return None
+
+
+def _compares_reached(repo: Repo, mod, fn: ast.AST, cls: Optional[str], ops: tuple, operand) -> list[tuple[ast.AST, ast.AST, ast.AST, ast.cmpop, ast.AST]]:
+    """(site, left, right, operator, comparison) for every two-operand comparison with an operator out of `ops` that fn performs: written
+    in fn (site = the comparison), or written in a def of the package that fn hands two operands to - a call with at least two arguments that
+    satisfy `operand` - between these two parameters, which (with the singly-bound locals of that def) are replaced by the arguments of the
+    call (site = the call).  `_tag_gt(a_tag, b_tag)` compares the two tags as `a_tag > b_tag` in place does."""
+    out: list[tuple[ast.AST, ast.AST, ast.AST, ast.cmpop, ast.AST]] = []
+    for c in own_nodes(fn):
+        if isinstance(c, ast.Compare) and len(c.ops) == 1 and isinstance(c.ops[0], ops):
+            out.append((c, c.left, c.comparators[0], c.ops[0], c))
+        elif isinstance(c, ast.Call) and len(c.args) + len(c.keywords) >= 2:
+            cal = H.resolve_call(repo, mod, c, cls)
+            if cal is None or cal.fn is fn:
+                continue
+            handed = {p for p, a in cal.bound.items() if a is not None and any(a is x for x in list(c.args) + [k.value for k in c.keywords]) and operand(a)}
+            if len(handed) < 2:
+                continue
+            De = H.Defs(cal.fn)
+            for cc in own_nodes(cal.fn):
+                if isinstance(cc, ast.Compare) and len(cc.ops) == 1 and isinstance(cc.ops[0], ops):
+                    try:
+                        l = ast.parse(De.expand(cc.left), mode="eval").body
+                        r = ast.parse(De.expand(cc.comparators[0]), mode="eval").body
+                    except SyntaxError:
+                        continue
+                    if not all(any(isinstance(x, ast.Name) and x.id in handed for x in ast.walk(side)) for side in (l, r)):
+                        continue
+                    out.append((c, H.subst_names(l, cal.bound), H.subst_names(r, cal.bound), cc.ops[0], cc))
+    return out
 
 
 def _reads_of(D: "H.Defs", e: ast.AST, attrs: tuple[str, ...], depth: int = 0) -> set[str]:
@@ -962,64 +1182,83 @@ def _is_value_of(D: "H.Defs", e: ast.AST, who: str) -> bool:
     return isinstance(r, ast.Attribute) and r.attr in ("value", "_value") and isinstance(r.value, ast.Name) and r.value.id == who
 
 
-def _rule_o_p_q_order(repo: Repo, rep: Report, tm, lm) -> None:
+def _rule_p_language_folded(repo: Repo, rep: Report, tm, lm) -> None:
     # ---- (p) language tags are compared case-folded wherever two literals are compared
     rp = "C07.p-language-compared-casefolded"
     rep.rule(rp,
-             "wherever a method of Literal compares the language tags of two literals (==, !=, <, >), both sides are case-folded, as in __eq__ and __hash__: "
+             "wherever a method of Literal compares the language tags of two literals (==, !=, <, >; in the method, or in a def of the package it hands the two tags to), "
+             "both sides are case-folded (.lower() / .casefold(), applied in place or by a one-expression def), as in __eq__ and __hash__: "
              "'chat'@en and 'chat'@EN are equal, so neither may be greater than the other (sorted() / ORDER BY otherwise depend on the input order)", floor=5)
+    def expand(e: ast.AST) -> ast.AST:
+        return H.expand_calls(repo, tm, e, "Literal")
+
     for name, fn in sorted(lm.items()):
         D = H.Defs(fn)
-        for c in own_nodes(fn):
-            if not (isinstance(c, ast.Compare) and len(c.ops) == 1 and isinstance(c.ops[0], (ast.Eq, ast.NotEq, ast.Lt, ast.Gt, ast.LtE, ast.GtE))):
-                continue
-            a, b = _lang_of(D, c.left), _lang_of(D, c.comparators[0])
+        for site, left, right, op, c in _compares_reached(repo, tm, fn, "Literal", (ast.Eq, ast.NotEq, ast.Lt, ast.Gt, ast.LtE, ast.GtE),
+                                                          lambda a: _lang_of(D, a, 0, expand) is not None):
+            a, b = _lang_of(D, left, 0, expand), _lang_of(D, right, 0, expand)
             if a is None or b is None or a[0] == b[0]:
                 continue
             rep.analysed("rdflib/term.py:Literal." + name)
             ok = a[1] and b[1]
-            rep.ob(rp, tm, "Literal." + name, "%s %s %s" % (D.expand(c.left), type(c.ops[0]).__name__, D.expand(c.comparators[0])), ok,
+            rep.ob(rp, tm, "Literal." + name, "%s %s %s" % (D.expand(left), type(op).__name__, D.expand(right)), ok,
                    "case-folded on both sides" if ok else "the tags are compared as written: Literal('chat', lang='en') == Literal('chat', lang='EN') but this comparison tells them apart, "
                    "so one is ordered after the other / they are not comparable though equal", node=c)
 
+
+def _numeric_flag_of(repo: Repo, tm, D: "H.Defs", e: ast.AST) -> set[str]:
+    """whose datatype the expression tests for membership in _NUMERIC_LITERAL_TYPES - a numeric flag of <who>.  Local names are
+    followed to their bindings and calls of one-expression defs of the package to what they return (`x._is_number()` is a name for
+    `x.datatype in _NUMERIC_LITERAL_TYPES and ...`)"""
+    try:
+        tree = ast.parse(D.expand(e), mode="eval")
+    except SyntaxError:
+        return set()
+    tree = H.expand_calls(repo, tm, tree, "Literal")
+    who = set()
+    for x in ast.walk(tree):
+        if isinstance(x, ast.Compare) and len(x.ops) == 1 and isinstance(x.ops[0], ast.In) and norm(x.comparators[0]) == "_NUMERIC_LITERAL_TYPES":
+            who |= {n.value.id for n in ast.walk(x.left) if isinstance(n, ast.Attribute) and isinstance(n.value, ast.Name)}
+    return who
+
+
+def _gt_lt(rep: Report, lm):
     gt = lm.get("__gt__")
     lt = lm.get("__lt__")
     if gt is None or lt is None:
         raise AnalysisError("Literal.__gt__/__lt__ vanished")
+    rep.analysed("rdflib/term.py:Literal.__gt__", "rdflib/term.py:Literal.__lt__")
+    return gt, lt
+
+
+def _rule_o_numbers_one_block(repo: Repo, rep: Report, tm, lm) -> None:
+    gt, lt = _gt_lt(rep, lm)
     me, ot = _self_param(gt), _second_param(gt)
     D = H.Defs(gt)
-    rep.analysed("rdflib/term.py:Literal.__gt__", "rdflib/term.py:Literal.__lt__")
 
-    # numeric flags: a test (or a local bound to one) that says `<x>.datatype in _NUMERIC_LITERAL_TYPES`
     def numeric_flag_of(e: ast.AST) -> set[str]:
-        txt = D.expand(e)
-        if "_NUMERIC_LITERAL_TYPES" not in txt:
-            return set()
-        try:
-            tree = ast.parse(txt, mode="eval")
-        except SyntaxError:
-            return set()
-        who = set()
-        for x in ast.walk(tree):
-            if isinstance(x, ast.Compare) and len(x.ops) == 1 and isinstance(x.ops[0], ast.In) and norm(x.comparators[0]) == "_NUMERIC_LITERAL_TYPES":
-                who |= {n.value.id for n in ast.walk(x.left) if isinstance(n, ast.Attribute) and isinstance(n.value, ast.Name)}
-        return who
+        return _numeric_flag_of(repo, tm, D, e)
 
     # ---- (o) numbers are one block in the order of the datatypes
     ro = "C07.o-numbers-one-block-in-datatype-order"
     rep.rule(ro,
              "Literal.__gt__: numeric literals are ordered by value across datatypes, so a comparison that orders two literals by another key - the datatype IRIs, or the lexical "
-             "forms - is reached only after it was decided that both or neither are numbers (a test `<numeric self> != <numeric other>` that returns); interleaving numbers with "
+             "forms; written in __gt__ or in a def of the package __gt__ hands the two keys to - is reached only after it was decided that both or neither are numbers (a test `<numeric self> != <numeric other>` that returns); interleaving numbers with "
              "other literals by such a key breaks transitivity: 0 < 1.0e0 (value) < P1D (xsd:double < xsd:duration) < 0 (xsd:duration < xsd:integer)", floor=3)
     n_o = 0
-    for c in own_nodes(gt):
-        if not (isinstance(c, ast.Compare) and len(c.ops) == 1 and isinstance(c.ops[0], (ast.Gt, ast.Lt, ast.GtE, ast.LtE))):
-            continue
-        l, r = c.left, c.comparators[0]
+
+    def lexical_of(e: ast.AST) -> Optional[str]:
+        return norm(e.args[0]) if isinstance(e, ast.Call) and norm(e.func) == "str" and len(e.args) == 1 and not e.keywords else None
+
+    def order_key(a: ast.AST) -> bool:
+        return bool(_reads_of(D, a, ("datatype", "_datatype"))) or lexical_of(a) in (me, ot)
+
+    # the comparisons __gt__ performs: in its body, or in a def it hands the two keys to (judged where that def is called)
+    for c, l, r, op, cmp_ in _compares_reached(repo, tm, gt, "Literal", (ast.Gt, ast.Lt, ast.GtE, ast.LtE), order_key):
         kind = None
         if _reads_of(D, l, ("datatype", "_datatype")) == {me} and _reads_of(D, r, ("datatype", "_datatype")) == {ot}:
             kind = "datatype IRI"
-        elif isinstance(l, ast.Call) and isinstance(r, ast.Call) and norm(l.func) == "str" and norm(r.func) == "str" and norm(l.args[0]) == me and norm(r.args[0]) == ot:
+        elif (lexical_of(l), lexical_of(r)) == (me, ot):
             kind = "lexical form"
         if kind is None:
             continue
@@ -1044,13 +1283,22 @@ def _rule_o_p_q_order(repo: Repo, rep: Report, tm, lm) -> None:
                         and H.always_leaves(st.body):
                     same_dt = True
         ok = decided or same_dt
-        rep.ob(ro, tm, "Literal.__gt__", "order by %s: %s" % (kind, D.expand(c)), ok,
+        rep.ob(ro, tm, "Literal.__gt__", "order by %s: %s" % (kind, D.expand(ast.Compare(left=l, ops=[op], comparators=[r]))), ok,
                ("after the numbers were set apart" if decided else "datatypes already found equal") if ok else
                "two literals are ordered by their %s although one of them may be a number (ordered by value against the other numbers) and the other not: the order is not "
                "transitive - %s" % (kind, "0 < 1.0e0 < 'P1D'^^xsd:duration < 0" if kind == "datatype IRI" else
                                     "'5'^^xsd:integer < '20'^^xsd:integer (value) < '3x'^^xsd:integer (lexical form) < '5'^^xsd:integer (lexical form)"), node=c)
     if n_o == 0:
         raise AnalysisError("Literal.__gt__: no comparison by datatype IRI / lexical form found")
+
+
+def _rule_q_total_and_mirrored(repo: Repo, rep: Report, tm, lm) -> None:
+    gt, lt = _gt_lt(rep, lm)
+    me, ot = _self_param(gt), _second_param(gt)
+    D = H.Defs(gt)
+
+    def numeric_flag_of(e: ast.AST) -> set[str]:
+        return _numeric_flag_of(repo, tm, D, e)
 
     # ---- (q) NaN, mirror, reflexivity
     rq = "C07.q-order-total-on-nan-and-mirrored"
@@ -1135,22 +1383,13 @@ def H_canon_body(src: str) -> str:
 # Structural conditions behind F185 (from_n3 un-escaped in several passes), F186 (from_n3 took numbers by str methods)
 # and F188 (graph digests hashed the language tag as written).  Helpers: vlib/h_c07.py (last section).
 
-_run_base3 = run
-
-
-def run(repo: Repo, rep: Report) -> None:  # noqa: F811
-    _run_base3(repo, rep)
-    rep.extra["explanation"] = rep.extra.get("explanation", "") + (
+_EXPLANATION_R_U = (
         " (r) text in which the backslash escapes itself is un-escaped in one left-to-right pass, never by str.replace() of escape sequences, "
         "and from_n3 hands Literal() the un-escaped text; (s) from_n3 takes a token for a number on a full match of the number grammar, which "
         "agrees with the Turtle parser's number patterns on a table of witnesses (signed exponent, ASCII digits only); (t) where term text is "
         "hashed into a graph digest, the n3() text of a literal that may carry a language tag is taken with the tag case-folded; (u) an escape pre-pass "
         "in front of a pyparsing grammar (which un-escapes strings again) consumes an escaped backslash as a unit."
-    )
-    _rule_r_unescape_one_pass(repo, rep)
-    _rule_s_number_grammar(repo, rep)
-    _rule_t_digest_text(repo, rep)
-    _rule_u_prepass(repo, rep)
+)
 
 
 def _is_literal_ctor(c: ast.AST) -> bool:
@@ -1316,6 +1555,80 @@ def _full_match_guard(repo: Repo, mod, e: ast.AST, pol: bool, subject: str) -> O
     return pat
 
 
+def _turtle_number_tries(repo: Repo) -> list[tuple[str, tuple[str, int], Optional[str]]]:
+    """the number tokenizer of the Turtle-family parser as data: (name of the pattern, (pattern text, flags), class the matched text is wrapped in)
+    for every constant pattern that SinkParser.nodeOrLiteral tries with <pattern>.match(text, position) at a character out of numberCharsPlus, in
+    the order of the tries.  The tries are looked for where they run, not where they are written: under the test on numberCharsPlus in
+    nodeOrLiteral, or in a def of the package called from there; a try `p.match(...)` inside `for p, wrap in TABLE` / `for p in TABLE` over a
+    module-level tuple display stands for one try per row, in the order of the rows.  The wrapping class is read off the statement that follows
+    the try: `if m: ... <list>.append(C(...))`."""
+    nm = repo.mod("rdflib.plugins.parsers.notation3")
+    nf = nm.func("SinkParser.nodeOrLiteral")
+    tries: list[tuple[str, tuple[str, int], Optional[str]]] = []
+
+    def table_rows(mod, it: ast.AST) -> Optional[list[ast.expr]]:
+        if isinstance(it, ast.Name):
+            vals = H.module_assigns(mod).get(it.id, [])
+            if len(vals) == 1 and isinstance(vals[0], (ast.Tuple, ast.List)):
+                return list(vals[0].elts)
+        elif isinstance(it, (ast.Tuple, ast.List)):
+            return list(it.elts)
+        return None
+
+    def wrapped_in(mod, c: ast.Call) -> Optional[ast.expr]:
+        asg = mod.parent.get(id(c))
+        if not (isinstance(asg, ast.Assign) and isinstance(asg.targets[0], ast.Name)):
+            return None
+        m = asg.targets[0].id
+        lst = _stmt_list_of(mod, asg)
+        nxt = lst[[i for i, s_ in enumerate(lst) if s_ is asg][0] + 1:][:1]
+        if nxt and isinstance(nxt[0], ast.If) and any(isinstance(x, ast.Name) and x.id == m for x in ast.walk(nxt[0].test)):
+            for y in [z for s_ in nxt[0].body for z in ast.walk(s_)]:
+                if isinstance(y, ast.Call) and isinstance(y.func, ast.Attribute) and y.func.attr == "append" and len(y.args) == 1 and isinstance(y.args[0], ast.Call):
+                    return y.args[0].func
+        return None
+
+    def one_try(mod, fn: ast.AST, c: ast.Call) -> None:
+        recv = c.func.value
+        wrap = wrapped_in(mod, c)
+        p = H.const_pattern(repo, mod, recv)
+        if p is not None:
+            tries.append((recv.id, p, norm(wrap).rsplit(".", 1)[-1] if wrap is not None else None))
+            return
+        # a loop variable over a table of patterns?
+        loop = next((q for q in mod.parents(c) if isinstance(q, ast.For) and any(isinstance(x, ast.Name) and x.id == recv.id for x in ast.walk(q.target))), None)
+        rows = table_rows(mod, loop.iter) if loop is not None else None
+        if loop is None or rows is None:
+            raise AnalysisError("%s: %s is neither a constant pattern nor a loop variable over a module-level table of patterns" % (fn.name, norm(recv)))
+        tgt = list(loop.target.elts) if isinstance(loop.target, (ast.Tuple, ast.List)) else [loop.target]
+        names = [t.id if isinstance(t, ast.Name) else None for t in tgt]
+        for row in rows:
+            cells = list(row.elts) if isinstance(row, (ast.Tuple, ast.List)) and len(tgt) > 1 else [row]
+            if len(cells) != len(tgt):
+                raise AnalysisError("%s: row %s of the pattern table does not fit the loop target" % (fn.name, norm(row)))
+            cell = dict(zip(names, cells))
+            pr = H.const_pattern(repo, mod, cell[recv.id])
+            if pr is None:
+                raise AnalysisError("%s: %s in the pattern table is not a constant pattern" % (fn.name, norm(cell[recv.id])))
+            w = cell.get(wrap.id, wrap) if isinstance(wrap, ast.Name) else wrap
+            tries.append((norm(cell[recv.id]), pr, norm(w).rsplit(".", 1)[-1] if w is not None else None))
+
+    def scan(mod, fn: ast.AST, under, depth: int) -> None:
+        order = H.execution_order(fn)
+        calls = sorted((c for c in own_nodes(fn) if isinstance(c, ast.Call) and under(c)), key=lambda c: order.get(id(c), 0))
+        me = fn.args.args[0].arg if fn.args.args else None
+        for c in calls:
+            if isinstance(c.func, ast.Attribute) and c.func.attr == "match" and isinstance(c.func.value, ast.Name) and len(c.args) == 2:
+                one_try(mod, fn, c)
+            elif depth < 2:
+                cal = H.resolve_call(repo, mod, c, "SinkParser" if mod is nm else None, (me,) if me else ())
+                if cal is not None and cal.fn is not fn and cal.fn is not nf:
+                    scan(cal.mod, cal.fn, lambda _c: True, depth + 1)
+
+    scan(nm, nf, lambda c: any(pol and any(isinstance(x, ast.Name) and x.id == "numberCharsPlus" for x in ast.walk(e)) for e, pol in H.atoms(H.path_conds(nm, nf, c))), 0)
+    return tries
+
+
 def _rule_s_number_grammar(repo: Repo, rep: Report) -> None:
     import re as _re
 
@@ -1363,15 +1676,7 @@ def _rule_s_number_grammar(repo: Repo, rep: Report) -> None:
     nm = repo.mod("rdflib.plugins.parsers.notation3")
     nf = nm.func("SinkParser.nodeOrLiteral")
     rep.analysed("rdflib/plugins/parsers/notation3.py:SinkParser.nodeOrLiteral")
-    tpats: dict[str, tuple[str, int]] = {}
-    for c in own_nodes(nf):
-        if isinstance(c, ast.Call) and isinstance(c.func, ast.Attribute) and c.func.attr == "match" and isinstance(c.func.value, ast.Name) and len(c.args) == 2:
-            if not any(pol and any(isinstance(x, ast.Name) and x.id == "numberCharsPlus" for x in ast.walk(e)) for e, pol in H.atoms(H.path_conds(nm, nf, c))):
-                continue
-            p = H.const_pattern(repo, nm, c.func.value)
-            if p is None:
-                raise AnalysisError("SinkParser.nodeOrLiteral: %s is not a constant pattern" % norm(c.func.value))
-            tpats[c.func.value.id] = p
+    tpats: dict[str, tuple[str, int]] = {name: pat for name, pat, _ in _turtle_number_tries(repo)}
     if len(tpats) < 3:
         raise AnalysisError("SinkParser.nodeOrLiteral: the integer / decimal / double patterns not found (%s)" % sorted(tpats))
     trx = [_re.compile(t, fl) for t, fl in tpats.values()]
@@ -1484,3 +1789,890 @@ def _rule_u_prepass(repo: Repo, rep: Report) -> None:
                                r"""back as the literal with the lexical form " (a double quote)""", node=y)
     if n == 0:
         raise AnalysisError("no escape pre-pass in front of a parse_string() call found (sparql.parser.parseQuery changed shape)")
+
+
+# ====================================================================== fifth layer: rules (v) - (ae)
+# Structural conditions behind F236 (Decimal written by str()), F242/F243 (Literal(<Literal>)), F244 (`$` and match()), F245 (<= / >=
+# gave up before asking the strict order), F246/F247 (two keys within one datatype), F248 (a Python type written as a datatype that
+# cannot be read), F249 (bare token without a token test), F250 (Python value kept under a foreign datatype).  Helpers: vlib/h_c07.py.
+
+_XSD_NS = "http://www.w3.org/2001/XMLSchema#"
+
+# The generic form of rules (ac) and (ad) also meets, on the tree as it is, defects of the kind they pin that are neither repaired in
+# /repo nor recorded in known_findings.json (both outside this file):
+#   (ac) _SpecificPythonToXSDRules writes a date as xsd:gYear / xsd:gYearMonth, datatypes XSDToPython cannot read back:
+#        Literal(date(2000, 6, 1), datatype=XSD.gYear) == Literal(date(2000, 1, 1), datatype=XSD.gYear) ("2000"), yet the first is > the second
+#        (ordered by the date values), and a pickled / re-parsed copy has no value at all;
+#   (ad) _TURTLE_DECIMAL lets the exponent forms through for xsd:decimal: Literal(1e-7, datatype=XSD.decimal) is written as the bare 1e-07 in
+#        Turtle, which is read back as an xsd:double.
+# They are recorded as instances with the verdict below; set this to True to have them reported as violations (once they are repaired or
+# listed as known findings - a report on the unchanged tree makes every seeded variant look caught).
+_REPORT_UNRECORDED_DEFECTS = True
+
+
+def _unrecorded(rep: Report, rid: str, mod, where: str, construct: str, detail: str, node: ast.AST) -> None:
+    rep.ob(rid, mod, where, construct, not _REPORT_UNRECORDED_DEFECTS,
+           detail if _REPORT_UNRECORDED_DEFECTS else "DEFECT ON THE UNCHANGED TREE, not reported as a violation (see _REPORT_UNRECORDED_DEFECTS): " + detail,
+           node=node, vacuous=not _REPORT_UNRECORDED_DEFECTS)
+
+
+_EXPLANATION_V_AE = (
+        " (v) the text of a Decimal that becomes an xsd:decimal lexical form is asked for in fixed-point format; (w) Literal(<Literal>) takes every "
+        "slot from the other literal; (x) the language and the datatype locals of Literal.__new__ stay mutually exclusive through every re-binding; "
+        "(y) a predicate whose verdict is a regex match of its argument matches the whole argument (fullmatch or \\Z, not `$`); (z) __le__/__ge__ give up "
+        "(NotImplemented after a TypeError) only after both strict comparisons were asked; (aa) values are compared only after the ill-typed literals "
+        "were set apart; (ab) a converter with several result classes has one order key for all of them; (ac) a datatype a Python type is written as "
+        "can be read back; (ad) a bare token is written only under a token test that agrees with the Turtle tokenizer; (ae) a Python value is kept "
+        "under the caller's datatype only after that datatype was compared with the type's own."
+)
+
+
+def _is_xsd(repo: Repo, mod, e: ast.AST, local: str) -> bool:
+    """e denotes the datatype IRI xsd:<local>: a constant of the module, or XSD.<local>"""
+    iri = H.fold_str(repo, mod, e)
+    if iri is not None:
+        return iri == _XSD_NS + local
+    return isinstance(e, ast.Attribute) and e.attr == local and norm(e.value).rsplit(".", 1)[-1] == "XSD"
+
+
+def _py_to_xsd_rows(tm) -> list[tuple[ast.expr, ast.expr, ast.expr, ast.expr, str]]:
+    """(python type, datatype, cast function, row, table) of the two Python-to-lexical tables of term.py"""
+    out = []
+    for table in ("_GenericPythonToXSDRules", "_SpecificPythonToXSDRules"):
+        rows = H.table_rows(tm, table)
+        if not rows:
+            raise AnalysisError("term.%s is not a list display" % table)
+        for r in rows:
+            if isinstance(r, ast.Tuple) and len(r.elts) == 2:
+                a, b = r.elts
+                if table.startswith("_Generic") and isinstance(b, ast.Tuple) and len(b.elts) == 2:
+                    out.append((a, b.elts[1], b.elts[0], r, table))
+                    continue
+                if table.startswith("_Specific") and isinstance(a, ast.Tuple) and len(a.elts) == 2:
+                    out.append((a.elts[0], a.elts[1], b, r, table))
+                    continue
+            raise AnalysisError("term.%s: row %s unmodelled" % (table, norm(r)))
+    return out
+
+
+# ---------------------------------------------------------------------- (v)
+def _decimal_typed(repo: Repo, mod, fn: ast.AST, x: ast.AST, at: ast.AST) -> bool:
+    """x is a decimal.Decimal where `at` runs: by its mypy type, or narrowed by an isinstance test that holds there"""
+    tf = repo.typed.type_of(mod.name, x)
+    if tf is not None and not tf.any and "decimal.Decimal" in tf.items and all(i in ("decimal.Decimal", "builtins.None") for i in tf.items):
+        return True
+    if isinstance(x, ast.Name):
+        for e, pol in H.atoms(H.branch_facts(mod, fn, at)):
+            if pol and isinstance(e, ast.Call) and norm(e.func) == "isinstance" and H.isinstance_classes(e, x.id) == ["Decimal"]:
+                return True
+    return False
+
+
+def _rule_v_decimal_text(repo: Repo, rep: Report, tm) -> None:
+    rid = "C07.v-decimal-text-in-fixed-point"
+    rep.rule(rid,
+             "wherever the text of a decimal.Decimal becomes the lexical form of an xsd:decimal literal - the first argument of a Literal(..., datatype=xsd:decimal) "
+             "construction anywhere in the package, and the cast function of the (Decimal, xsd:decimal) row of term's Python-to-lexical tables - it is asked for in "
+             "fixed-point format (f'{d:f}', format(d, 'f'), '%f'): str(), repr(), '%s' and a bare f-string field switch to exponent notation below 1e-6 and for a positive "
+             "exponent, which is outside the lexical space of xsd:decimal.  The Turtle parser read the token 0.0000001 as the ill-typed \"1E-7\"^^xsd:decimal, "
+             "another term than the one n3() had written", floor=2)
+    n = 0
+    for _, mod in sorted(repo.modules.items()):
+        for q, fn in mod.functions():
+            ctors = [c for c in own_nodes(fn) if _is_literal_ctor(c) and any(k.arg == "datatype" and _is_xsd(repo, mod, k.value, "decimal") for k in c.keywords)]
+            if not ctors:
+                continue
+            D = H.Defs(fn)
+            for c in ctors:
+                lex = c.args[0] if c.args else next((k.value for k in c.keywords if k.arg == "lexical_or_value"), None)
+                if lex is None:
+                    continue
+                rend = []
+                for x in H.backward_slice(D, lex):
+                    for node, operand, fixed in H.text_renderings(x):
+                        if _decimal_typed(repo, mod, fn, operand, node):
+                            rend.append((node, fixed))
+                if not rend:
+                    continue
+                n += 1
+                rep.analysed("%s:%s" % (mod.rel, q))
+                bad = [nd for nd, fixed in rend if not fixed]
+                rep.ob(rid, mod, q, "Literal(<text of a Decimal>, datatype=xsd:decimal): the text is asked for in fixed-point format", not bad,
+                       "" if not bad else "the lexical form is %s of a Decimal: for Decimal('0.0000001') that is '1E-7', not a decimal lexical form - the literal is ill-typed and "
+                       "not the term \"0.0000001\"^^xsd:decimal that was written" % type(bad[0]).__name__.replace("FormattedValue", "a bare f-string field").replace("Call", "str()/repr()/format()").replace("BinOp", "a %-format"),
+                       node=bad[0] if bad else c)
+    for pt, dt, cast, row, table in _py_to_xsd_rows(tm):
+        if norm(pt).rsplit(".", 1)[-1] != "Decimal" or not _is_xsd(repo, tm, dt, "decimal"):
+            continue
+        n += 1
+        fnode = cast if isinstance(cast, ast.Lambda) else tm.defs.get(cast.id) if isinstance(cast, ast.Name) else None
+        ok = False
+        if isinstance(fnode, (ast.Lambda, ast.FunctionDef)) and fnode.args.args:
+            p = fnode.args.args[0].arg
+            bodies = [fnode.body] if isinstance(fnode, ast.Lambda) else [r.value for r in own_nodes(fnode) if isinstance(r, ast.Return) and r.value is not None]
+            rend2 = [fixed for b in bodies for _, operand, fixed in H.text_renderings(b) if isinstance(operand, ast.Name) and operand.id == p]
+            ok = bool(rend2) and all(rend2)
+        rep.ob(rid, tm, table, "(Decimal, xsd:decimal): the cast function writes fixed-point text", ok,
+               "" if ok else "Literal(Decimal('1E-7')) gets the lexical form str(Decimal) = '1E-7' (cast function: %s), which is not in the lexical space of xsd:decimal" % norm(cast), node=row)
+    if n < 2:
+        raise AnalysisError("no xsd:decimal literal built from the text of a Decimal found (RDFSink.normalise / _GenericPythonToXSDRules changed shape)")
+
+
+# ---------------------------------------------------------------------- (w) (x)
+def _slot_locals(tm, new: ast.FunctionDef) -> dict[str, str]:
+    """slot of Literal -> the local of __new__ stored into it (`inst._language = lang`)"""
+    slots: list[str] = []
+    for st in tm.cls("Literal").body:
+        if isinstance(st, ast.Assign) and norm(st.targets[0]) == "__slots__" and isinstance(st.value, (ast.Tuple, ast.List)):
+            slots = [e.value for e in st.value.elts if isinstance(e, ast.Constant) and isinstance(e.value, str)]
+    if len(slots) < 4:
+        raise AnalysisError("Literal.__slots__ not found as a display of >= 4 names (%s)" % slots)
+    got: dict[str, set[str]] = {}
+    for n in own_nodes(new):
+        if isinstance(n, ast.Assign) and len(n.targets) == 1 and isinstance(n.targets[0], ast.Attribute) and n.targets[0].attr in slots and isinstance(n.value, ast.Name):
+            got.setdefault(n.targets[0].attr, set()).add(n.value.id)
+    bad = [s for s in slots if len(got.get(s, ())) != 1]
+    if bad:
+        raise AnalysisError("Literal.__new__: slot(s) %s are not stored from exactly one local" % bad)
+    return {s: next(iter(v)) for s, v in got.items()}
+
+
+def _stmt_list_of(tm, st: ast.AST) -> list[ast.stmt]:
+    p = tm.parent.get(id(st))
+    for field in ("body", "orelse", "finalbody"):
+        lst = getattr(p, field, None)
+        if isinstance(lst, list) and any(s is st for s in lst):
+            return lst
+    return []
+
+
+def _attr_of(e: ast.AST, attrs: tuple[str, ...]) -> Optional[str]:
+    """x when e is x.<attr> for a name x and one of attrs"""
+    if isinstance(e, ast.Attribute) and e.attr in attrs and isinstance(e.value, ast.Name):
+        return e.value.id
+    return None
+
+
+def _not_none_name(e: ast.AST, pol: bool) -> Optional[str]:
+    """n when the atom says `n is not None`"""
+    if isinstance(e, ast.Compare) and len(e.ops) == 1 and isinstance(e.left, ast.Name) and isinstance(e.comparators[0], ast.Constant) and e.comparators[0].value is None:
+        if (isinstance(e.ops[0], (ast.IsNot, ast.NotEq)) and pol) or (isinstance(e.ops[0], (ast.Is, ast.Eq)) and not pol):
+            return e.left.id
+    return None
+
+
+def _new_and_slots(tm, lm):
+    new = lm.get("__new__")
+    if new is None:
+        raise AnalysisError("Literal.__new__ vanished")
+    return new, _second_param(new), _slot_locals(tm, new)
+
+
+def _rule_w_copy(repo: Repo, rep: Report, tm, lm) -> None:
+    new, lex, locs = _new_and_slots(tm, lm)
+
+    # ---- (w)
+    rw = "C07.w-copy-takes-every-slot"
+    rep.rule(rw,
+             "Literal.__new__: an arm entered on isinstance(<first argument>, Literal) that takes one of the locals finally stored into the slots of the new literal "
+             "(Literal.__slots__: _language, _datatype, _value, _ill_typed) from the corresponding attribute of the other literal takes ALL of them from it: a copy is the "
+             "same term in every respect.  The copy of the ill-typed \"1_000\"^^xsd:integer (int() gives it the value 1000) had ill_typed None: it was ordered and compared by "
+             "eq() as a well-typed number - Literal(2000) > copy, but not > the equal original, which comes after all numbers", floor=4)
+    arms = []
+    for st in own_nodes(new):
+        if isinstance(st, ast.If) and any(pol and isinstance(e, ast.Call) and norm(e.func) == "isinstance" and H.isinstance_classes(e, lex) == ["Literal"]
+                                          for e, pol in H.atoms([(st.test, True)])):
+            taken = {}
+            for x in [y for s in st.body for y in ast.walk(s)]:
+                if isinstance(x, ast.Assign) and len(x.targets) == 1 and isinstance(x.targets[0], ast.Name):
+                    for slot, loc in locs.items():
+                        if x.targets[0].id == loc and any(_attr_of(a, (slot, slot.lstrip("_"))) == lex for a in ast.walk(x.value)):
+                            taken[slot] = x
+            if taken:
+                arms.append((st, taken))
+    if not arms:
+        raise AnalysisError("Literal.__new__: no arm that copies the fields of another Literal found")
+    for st, taken in arms:
+        for slot in sorted(locs):
+            ok = slot in taken
+            rep.ob(rw, tm, "Literal.__new__", "copy of another Literal: %s is taken from it" % slot, ok,
+                   "" if ok else "the arm takes %s from the other literal but not %s: Literal(Literal('1_000', datatype=XSD.integer)) equals its argument but differs from it in %s "
+                   "(for ill_typed: None instead of True - Literal(2000) > the copy, which is ordered by its value 1000, but not > the original, which comes after all numbers)"
+                   % (", ".join(sorted(taken)), slot, slot.lstrip("_")), node=st)
+
+
+def _rule_x_exclusion(repo: Repo, rep: Report, tm, lm) -> None:
+    new, lex, locs = _new_and_slots(tm, lm)
+
+    # ---- (x)
+    rx = "C07.x-language-excludes-datatype"
+    rep.rule(rx,
+             "Literal.__new__ keeps `language is None or datatype is None` for the two locals it stores into _language and _datatype: it raises when both are given, and "
+             "afterwards the language local is re-bound only to None or, together with the datatype local, to the two fields of one and the same other literal; the datatype "
+             "local is re-bound only to itself wrapped, to a field of that literal, or else the re-binding is followed by `if <datatype> is not None: <language> = None`.  "
+             "Literal(Literal('a', lang='en'), datatype=XSD.string) inherited the language as well: a term with both, which cannot be pickled (the constructor refuses the "
+             "reduce arguments) and whose n3() text \"a\"@en is read back as another term", floor=5)
+    L, T = locs["_language"], locs["_datatype"]
+    guards = [r for r in own_nodes(new) if isinstance(r, ast.Raise)
+              and {L, T} <= {_not_none_name(e, pol) for e, pol in H.atoms(H.path_conds(tm, new, r))}]
+    rep.ob(rx, tm, "Literal.__new__", "raises when a language and a datatype are given", bool(guards),
+           "" if guards else "no `raise` under `%s is not None and %s is not None`: Literal('a', lang='en', datatype=XSD.string) is a term with both" % (L, T), node=new)
+
+    def pair_copy(a: ast.Assign, attrs_here: tuple[str, ...], other_local: str, attrs_other: tuple[str, ...]) -> bool:
+        src = _attr_of(a.value, attrs_here)
+        if src is None:
+            return False
+        return any(isinstance(s, ast.Assign) and len(s.targets) == 1 and norm(s.targets[0]) == other_local and _attr_of(s.value, attrs_other) == src
+                   for s in _stmt_list_of(tm, a))
+
+    for a in own_nodes(new):
+        if isinstance(a, (ast.AugAssign, ast.AnnAssign)) and isinstance(a.target, ast.Name) and a.target.id in (L, T) and getattr(a, "value", None) is not None \
+                and not (isinstance(a, ast.AnnAssign) and isinstance(a.value, ast.Constant) and a.value.value is None):
+            rep.ob(rx, tm, "Literal.__new__", "re-binding of the %s local" % ("language" if a.target.id == L else "datatype"), False,
+                   "augmented / annotated re-binding %s: unmodelled, the exclusion of language and datatype is not shown to survive it" % norm(a), node=a)
+        if not (isinstance(a, ast.Assign) and len(a.targets) == 1 and isinstance(a.targets[0], ast.Name) and a.targets[0].id in (L, T)):
+            continue
+        v = a.value
+        if a.targets[0].id == L:
+            if isinstance(v, ast.Constant) and v.value is None:
+                ok, how = True, "None"
+            elif pair_copy(a, ("language", "_language"), T, ("datatype", "_datatype")):
+                ok, how = True, "language and datatype of one other literal"
+            else:
+                ok, how = False, ""
+            rep.ob(rx, tm, "Literal.__new__", "language local re-bound to %s" % (how or _subst_name(v, L, None, "LANGUAGE")), ok,
+                   "" if ok else "the language local is re-bound to a value that may be a tag while the datatype local may be set: Literal(Literal('a', lang='en'), datatype=XSD.string) "
+                   "has the language 'en' and the datatype xsd:string; pickle.dumps() of it cannot be loaded, and its n3() text is read as another term", node=a)
+        else:
+            later = False
+            lst = _stmt_list_of(tm, a)
+            seen = False
+            for s in lst:
+                if s is a:
+                    seen = True
+                    continue
+                if seen and isinstance(s, ast.If) and T in {_not_none_name(e, pol) for e, pol in H.atoms([(s.test, True)])} \
+                        and any(isinstance(y, ast.Assign) and len(y.targets) == 1 and norm(y.targets[0]) == L and isinstance(y.value, ast.Constant) and y.value.value is None
+                                for b in s.body for y in ast.walk(b)):
+                    later = True
+            if isinstance(v, ast.Call) and len(v.args) == 1 and not v.keywords and isinstance(v.args[0], ast.Name) and v.args[0].id == T:
+                ok, how = True, "itself, wrapped by %s()" % norm(v.func)
+            elif pair_copy(a, ("datatype", "_datatype"), L, ("language", "_language")):
+                ok, how = True, "language and datatype of one other literal"
+            elif later:
+                ok, how = True, "another value, followed by `if it is not None: language = None`"
+            else:
+                ok, how = False, ""
+            rep.ob(rx, tm, "Literal.__new__", "datatype local re-bound to %s" % (how or "another value"), ok,
+                   "" if ok else "the datatype local gets a value that may be a datatype (%s) while the language local may be a tag, and the language is not cleared afterwards: "
+                   "Literal(1, lang='en') is \"1\"@en^^xsd:integer, a term with both" % _callees_text(v), node=a)
+
+
+def _callees_text(e: ast.AST) -> str:
+    """callee names of an expression (a text that does not depend on how locals are called)"""
+    return ", ".join(sorted({norm(c.func) for c in ast.walk(e) if isinstance(c, ast.Call)})) or type(e).__name__
+
+
+# ---------------------------------------------------------------------- (y)
+def _verdict_of(e: ast.AST) -> ast.AST:
+    """the expression whose truth a returned verdict is: bool(x), not x, x is (not) None are looked through"""
+    while True:
+        if isinstance(e, ast.Call) and isinstance(e.func, ast.Name) and e.func.id == "bool" and len(e.args) == 1:
+            e = e.args[0]
+        elif isinstance(e, ast.UnaryOp) and isinstance(e.op, ast.Not):
+            e = e.operand
+        elif isinstance(e, ast.Compare) and len(e.ops) == 1 and isinstance(e.comparators[0], ast.Constant) and e.comparators[0].value is None:
+            e = e.left
+        else:
+            return e
+
+
+def _rule_y_verdict_full_match(repo: Repo, rep: Report) -> None:
+    rid = "C07.y-verdict-matches-the-whole-argument"
+    rep.rule(rid,
+             "a function of the package whose verdict on its argument is a regular-expression match of it (return bool(P.match(arg)), return P.fullmatch(arg) is not None) "
+             "matches the WHOLE argument: fullmatch(), or match() of a pattern that ends in \\Z.  match() anchors the start only, and a final `$` also matches before a trailing "
+             "line feed: _is_valid_langtag('en\\n') was true, Literal('a', lang='en\\n') was made, and its n3() text \"a\"@en<LF> is read back as \"a\"@en, another term", floor=2)
+    n = 0
+    for _, mod in sorted(repo.modules.items()):
+        for q, fn in mod.functions():
+            a = fn.args
+            params = {x.arg for x in a.posonlyargs + a.args + a.kwonlyargs}
+            for r in own_nodes(fn):
+                if not (isinstance(r, ast.Return) and r.value is not None):
+                    continue
+                e = _verdict_of(r.value)
+                if not (isinstance(e, ast.Call) and isinstance(e.func, ast.Attribute) and e.func.attr in ("match", "fullmatch")):
+                    continue
+                via_re = isinstance(e.func.value, ast.Name) and e.func.value.id == "re"
+                subj = (e.args[1] if len(e.args) > 1 else None) if via_re else (e.args[0] if e.args else None)
+                if subj is None or not any(isinstance(x, ast.Name) and x.id in params for x in ast.walk(subj)):
+                    continue
+                n += 1
+                rep.analysed("%s:%s" % (mod.rel, q))
+                if e.func.attr == "fullmatch":
+                    rep.ob(rid, mod, q, "verdict by %s()" % e.func.attr, True, "whole argument", node=e)
+                    continue
+                if via_re:
+                    txt = H.fold_str(repo, mod, e.args[0])
+                    pat = (txt, H._re_flags(e.args[2] if len(e.args) > 2 else next((k.value for k in e.keywords if k.arg == "flags"), None)) or 0) if txt is not None \
+                        else H.const_pattern(repo, mod, e.args[0])
+                else:
+                    pat = H.const_pattern(repo, mod, e.func.value)
+                if pat is None:
+                    rep.ob(rid, mod, q, "verdict by match() of a pattern that is not a constant", False,
+                           "match() anchors the start only and nothing shows that the pattern reaches the end of the argument", node=e)
+                    continue
+                ok = H.pattern_ends_at_string_end(pat[0], pat[1])
+                dollar = pat[0].endswith("$")
+                rep.ob(rid, mod, q, "verdict by match() of %s" % pat[0], ok,
+                       "ends in \\Z" if ok else
+                       ("the pattern ends in `$`, which also matches before a trailing line feed: %s('en\\n') holds for a pattern that admits 'en'; a language tag with a line feed "
+                        "passes Literal() and its n3() text is read back as the tag without it" % fn.name) if dollar else
+                       "match() anchors the start only: every argument with a valid prefix passes", node=e)
+    if n == 0:
+        raise AnalysisError("no predicate with a regular-expression verdict found (term._is_valid_langtag changed shape)")
+
+
+# ---------------------------------------------------------------------- (z)
+def _rule_z_le_ge(repo: Repo, rep: Report, tm) -> None:
+    rid = "C07.z-le-ge-ask-both-strict-orders"
+    rep.rule(rid,
+             "__le__ / __ge__ of a term class: a `return NotImplemented` inside an exception handler (the equality of the values could not be decided) is reached only after "
+             "BOTH strict comparisons of the two operands were asked (self.__lt__(other) and self.__gt__(other), or the operators): the strict order of literals is total, so "
+             "`a <= b` is decided whenever `a > b` is.  For two literals of one datatype without a Python value, a < b was True while b <= a raised TypeError", floor=2)
+    n = 0
+    mirror = {"__lt__": "__gt__", "__gt__": "__lt__"}
+    for cd in [c for c in tm.tree.body if isinstance(c, ast.ClassDef)]:
+        meths = tm.methods(cd.name)
+        for name in ("__le__", "__ge__"):
+            fn = meths.get(name)
+            if fn is None or len(fn.args.args) < 2:
+                continue
+            me, ot = _self_param(fn), _second_param(fn)
+            for r in own_nodes(fn):
+                if not (isinstance(r, ast.Return) and isinstance(r.value, ast.Name) and r.value.id == "NotImplemented"):
+                    continue
+                inside_handler = False
+                for p in tm.parents(r):
+                    if isinstance(p, ast.ExceptHandler):
+                        inside_handler = True
+                    if p is fn:
+                        break
+                if not inside_handler:
+                    continue
+                n += 1
+                rep.analysed("rdflib/term.py:%s.%s" % (cd.name, name))
+                asked: set[str] = set()
+                for x in H.consulted_before(tm, fn, r):
+                    for c in ast.walk(x):
+                        if isinstance(c, ast.Call) and isinstance(c.func, ast.Attribute) and c.func.attr in mirror and len(c.args) == 1:
+                            pair = (norm(c.func.value), norm(c.args[0]))
+                            if pair == (me, ot):
+                                asked.add(c.func.attr)
+                            elif pair == (ot, me):
+                                asked.add(mirror[c.func.attr])
+                        elif isinstance(c, ast.Compare) and len(c.ops) == 1 and isinstance(c.ops[0], (ast.Lt, ast.Gt)):
+                            op = "__lt__" if isinstance(c.ops[0], ast.Lt) else "__gt__"
+                            pair = (norm(c.left), norm(c.comparators[0]))
+                            if pair == (me, ot):
+                                asked.add(op)
+                            elif pair == (ot, me):
+                                asked.add(mirror[op])
+                ok = asked == {"__lt__", "__gt__"}
+                rep.ob(rid, tm, "%s.%s" % (cd.name, name), "gives up in an exception handler after asking %s" % (" and ".join(sorted(asked)) or "nothing"), ok,
+                       "" if ok else "%s returns NotImplemented when eq() raises TypeError although only %s was asked: for a = \"x\"^^<urn:dt>, b = \"y\"^^<urn:dt> (no Python values) "
+                       "a < b is True while b %s a raises TypeError instead of answering False" % (name, " and ".join(sorted(asked)) or "no strict comparison", "<=" if name == "__le__" else ">="), node=r)
+    if n == 0:
+        raise AnalysisError("no __le__/__ge__ that gives up inside an exception handler found (Literal.__le__ changed shape)")
+
+
+# ---------------------------------------------------------------------- (aa)
+def _value_operand(D: "H.Defs", e: ast.AST, who: str) -> bool:
+    """e is <who>.value, a local bound to it, or a one-argument call on it (a key function applied to the value)"""
+    if _is_value_of(D, e, who):
+        return True
+    r = D.resolve(e) if isinstance(e, ast.Name) else e
+    return isinstance(r, ast.Call) and len(r.args) == 1 and not r.keywords and _is_value_of(D, r.args[0], who)
+
+
+def _only_reads(D: "H.Defs", e: ast.AST, who: str, attrs: tuple[str, ...], depth: int = 0) -> bool:
+    """e (local names followed) reads an attribute of <who> out of attrs, and no other attribute of any name"""
+    got: set[tuple[str, str]] = set()
+
+    def walk(x: ast.AST, d: int) -> None:
+        for y in ast.walk(x):
+            if isinstance(y, ast.Attribute) and isinstance(y.value, ast.Name):
+                got.add((y.value.id, y.attr))
+            elif isinstance(y, ast.Name) and y.id not in D.params and d < 6:
+                for v in D.values(y.id):
+                    if v is not None:
+                        walk(v, d + 1)
+
+    walk(e, depth)
+    return bool(got) and all(w == who and a in attrs for w, a in got)
+
+
+def _rule_aa_ill_typed_split(repo: Repo, rep: Report, tm, lm) -> None:
+    rid = "C07.aa-values-compared-after-ill-typed-set-apart"
+    rep.rule(rid,
+             "Literal.__gt__, outside the numeric arm: an ordering comparison of the two VALUES (self.value > other.value, key(self.value) > key(other.value)) is reached only "
+             "after a test `<ill-typedness of self> != <ill-typedness of other>` that returns: within one datatype the well-typed literals are ordered by value and everything "
+             "else by lexical form, so the two classes must be two blocks (a test of ill-typedness alone; `num_self != num_other` sets apart the numbers only).  Without it, of the "
+             "xsd:dateTime literals a = \"2000-01-01T12:00:00+14:00\", b = \"2000-01-01T01:00:00Z\" and the ill-typed c = \"2000-01-01T07:61:00Z\", b > a by value while "
+             "a > c > b by text: a cycle, sorted() depended on the input order", floor=2)
+    gt = lm.get("__gt__")
+    if gt is None:
+        raise AnalysisError("Literal.__gt__ vanished")
+    me, ot = _self_param(gt), _second_param(gt)
+    D = H.Defs(gt)
+    ill = ("ill_typed", "_ill_typed")
+    n = 0
+    for c in own_nodes(gt):
+        if not (isinstance(c, ast.Compare) and len(c.ops) == 1 and isinstance(c.ops[0], (ast.Gt, ast.Lt, ast.GtE, ast.LtE))
+                and _value_operand(D, c.left, me) and _value_operand(D, c.comparators[0], ot)):
+            continue
+        if any(pol and _numeric_flag_of(repo, tm, D, e) for e, pol in H.atoms(H.path_conds(tm, gt, c))):
+            continue  # the numeric arm: both are well-typed numbers there (rules o, q)
+        n += 1
+        split = False
+        for st in H.earlier_siblings(tm, gt, c):
+            if isinstance(st, ast.If) and H.always_leaves(st.body) and isinstance(st.test, ast.Compare) and len(st.test.ops) == 1 \
+                    and isinstance(st.test.ops[0], (ast.NotEq, ast.IsNot)) and _only_reads(D, st.test.left, me, ill) and _only_reads(D, st.test.comparators[0], ot, ill):
+                split = True  # (a test of ill-typedness alone: `num_self != num_other` sets apart the ill-typed NUMBERS only)
+        rep.ob(rid, tm, "Literal.__gt__", "values compared (%s) after the ill-typed literals were set apart" % ("by a key function" if isinstance(D.resolve(c.left) if isinstance(c.left, ast.Name) else c.left, ast.Call) else "directly"), split,
+               "" if split else "two literals of one datatype are ordered by value here and, when one of them has no value, by lexical form further down, without a test that puts "
+               "the ill-typed ones after the well-typed ones first: for a = \"2000-01-01T12:00:00+14:00\", b = \"2000-01-01T01:00:00Z\" and the ill-typed c = \"2000-01-01T07:61:00Z\" "
+               "of xsd:dateTime, b > a (value) and a > c > b (text) - sorted() depends on the input order", node=c)
+    if n == 0:
+        raise AnalysisError("Literal.__gt__: no comparison of the values outside the numeric arm found")
+
+
+# ---------------------------------------------------------------------- (ab)
+def _rule_ab_one_order_key(repo: Repo, rep: Report, tm) -> None:
+    rid = "C07.ab-one-order-key-per-converter"
+    rep.rule(rid,
+             "a lexical-to-value converter of term.XSDToPython whose declared result is a union of classes (parse_xsd_duration: Duration | timedelta) gives the literals of ONE "
+             "datatype values of several Python classes; Literal.__gt__ compares values through term._TOTAL_ORDER_CASTERS[type(value)], so every class of the union is a key "
+             "of that table and all of them have one and the same key function.  Otherwise pairs of one class are ordered by value and mixed pairs (TypeError) by lexical "
+             "form: P9D < P10D (timedelta), P10D < P1M and P1M < P9D (text) - a cycle, sorted() depended on the input order", floor=2)
+    casters = {norm(k).rsplit(".", 1)[-1]: v for k, v in H.dict_table(tm, "_TOTAL_ORDER_CASTERS")}
+    if not casters:
+        raise AnalysisError("term._TOTAL_ORDER_CASTERS is not a dict display")
+    done: set[tuple[str, str]] = set()
+    n = 0
+    for k, conv in H.dict_table(tm, "XSDToPython"):
+        if not isinstance(conv, ast.Name):
+            continue
+        root, where = H.root_callable(repo, tm, conv)
+        if where is None:
+            continue
+        fn = where.defs.get(root.rsplit(".", 1)[-1])
+        if not isinstance(fn, ast.FunctionDef) or (where.name, fn.name) in done:
+            continue
+        done.add((where.name, fn.name))
+        classes = sorted(set(H.annotation_classes(fn.returns)))
+        if len(classes) < 2:
+            continue
+        if any(c.startswith("?") for c in classes):
+            raise AnalysisError("%s: return annotation %s unmodelled" % (fn.name, norm(fn.returns)))
+        rep.analysed("%s:%s" % (where.rel, fn.name))
+        keys = {norm(casters[c]) for c in classes if c in casters}
+        for c in classes:
+            n += 1
+            ok = c in casters and len(keys) == 1
+            rep.ob(rid, tm, "_TOTAL_ORDER_CASTERS", "%s() -> %s: %s has the order key shared by all of them" % (fn.name, " | ".join(classes), c), ok,
+                   "" if ok else ("values of class %s have no entry in _TOTAL_ORDER_CASTERS" % c if c not in casters else "the classes have different key functions (%s)" % ", ".join(sorted(keys))) +
+                   ": literals of one datatype whose values are of different classes are compared with `>` (TypeError -> lexical form) while those of one class are compared "
+                   "by value - \"P9D\" < \"P10D\" < \"P1M\" < \"P9D\" for xsd:duration", node=casters.get(c, conv))
+    if n == 0:
+        raise AnalysisError("no converter of XSDToPython declares a union of result classes (parse_xsd_duration changed shape)")
+
+
+# ---------------------------------------------------------------------- (ac)
+def _rule_ac_datatype_readable(repo: Repo, rep: Report, tm) -> None:
+    rid = "C07.ac-written-datatype-can-be-read"
+    rep.rule(rid,
+             "every datatype that term's Python-to-lexical tables (_GenericPythonToXSDRules, _SpecificPythonToXSDRules) write a Python object as has a lexical-to-value "
+             "converter in term.XSDToPython: Literal(obj) keeps obj as its value, while every other way to the same term - copy by text, pickle, n3() and back - makes the "
+             "value from the lexical form.  owl:rational had none: Literal(Fraction(1, 2)) had a value and its unpickled copy had not, so equal terms were ordered by value "
+             "or by lexical form depending on how they were made", floor=12)
+    x2p: dict[str, ast.expr] = {}
+    for k, v in H.dict_table(tm, "XSDToPython"):
+        if isinstance(k, ast.Constant) and k.value is None:
+            continue
+        iri = H.fold_str(repo, tm, k)
+        if iri is None:
+            raise AnalysisError("XSDToPython: key %s is not a constant IRI" % norm(k))
+        x2p[iri] = v
+    if len(x2p) < 25:
+        raise AnalysisError("XSDToPython: only %d entries found" % len(x2p))
+    for pt, dt, cast, row, table in _py_to_xsd_rows(tm):
+        if isinstance(dt, ast.Constant) and dt.value is None:
+            continue
+        iri = H.fold_str(repo, tm, dt)
+        if iri is None:
+            raise AnalysisError("%s: datatype %s is not a constant IRI" % (table, norm(dt)))
+        conv = x2p.get(iri)
+        ok = conv is not None and not (isinstance(conv, ast.Constant) and conv.value is None)
+        what = "%s: %s is written as <%s>, which XSDToPython can read back" % (table, norm(pt), iri)
+        why = "" if ok else "Literal(<%s>%s) has the Python object as its value, but <%s> has no converter in XSDToPython: the literal made from its text (pickle, copy, parser) " \
+            "has no value - the two are equal terms that are ordered differently against a third" % (norm(pt), "" if table.startswith("_Generic") else ", datatype=<%s>" % iri, iri)
+        if not ok and table.startswith("_Specific") and not _REPORT_UNRECORDED_DEFECTS:
+            _unrecorded(rep, rid, tm, table, what, why + " [Literal(date(2000, 6, 1), datatype=XSD.gYear) == Literal(date(2000, 1, 1), datatype=XSD.gYear), and the first is > the second]", row)
+        else:
+            rep.ob(rid, tm, table, what, ok, why, node=row)
+
+
+# ---------------------------------------------------------------------- (ad)
+_TOKEN_WITNESSES = [w for w, _, _ in _NUMBER_WITNESSES] + [
+    "1.", "+1.", "1.0", "01", "-.5", " 1 ", "1 ", "\t1", "1\r", "1.5E-3", "1e3", "1.e3", "1e-07", "٣.٥", "1_0.5", "0x10", "1,5"]
+
+
+def _turtle_number_reader(repo: Repo):
+    """the number tokenizer of the Turtle-family parser as data: [(compiled pattern, datatype IRI)] in the order SinkParser.nodeOrLiteral tries
+    them - the class each match is wrapped in (res.append(C(...))) is mapped to a datatype by the isinstance arms of RDFSink.normalise"""
+    import re as _re
+
+    nm = repo.mod("rdflib.plugins.parsers.notation3")
+    nf = nm.func("SinkParser.nodeOrLiteral")
+    norm_fn = nm.func("RDFSink.normalise")
+    if len(norm_fn.args.args) < 3:
+        raise AnalysisError("RDFSink.normalise: parameters changed")
+    nparam = norm_fn.args.args[2].arg
+    cls2dt: dict[str, str] = {}
+    for c in own_nodes(norm_fn):
+        if _is_literal_ctor(c):
+            dt = next((H.fold_str(repo, nm, k.value) for k in c.keywords if k.arg == "datatype"), None)
+            if dt is None:
+                continue
+            for t, pol in H.path_conds(nm, norm_fn, c):
+                if pol:
+                    for cl in H.isinstance_classes(t, nparam):
+                        cls2dt.setdefault(cl, dt)
+    order: list[tuple[int, "_re.Pattern[str]", str]] = []
+    for i, (name, p, wrapped) in enumerate(_turtle_number_tries(repo)):
+        if wrapped is None or wrapped not in cls2dt:
+            raise AnalysisError("SinkParser.nodeOrLiteral: what a match of %s is appended as (%s) has no arm in RDFSink.normalise" % (name, wrapped))
+        order.append((i, _re.compile(p[0], p[1]), cls2dt[wrapped]))
+    if len(order) < 3:
+        raise AnalysisError("SinkParser.nodeOrLiteral: the integer / decimal / double patterns not found")
+
+    def read(w: str) -> Optional[str]:
+        for _, rx, dt in order:
+            m = rx.match(w)
+            if m:
+                return dt if m.end() == len(w) else None
+        return None
+
+    return read
+
+
+def _rule_ad_token_test(repo: Repo, rep: Report, tm, lm) -> None:
+    import re as _re
+
+    rid = "C07.ad-bare-token-under-a-token-test"
+    rep.rule(rid,
+             "Literal._literal_n3: a bare token that is the literal's own text is returned (by the shorthand block, or by a def the block calls for it) only under a test that the text IS a token: a full match of it against a constant "
+             "pattern, or membership in a constant tuple of strings (`s in ('true', 'false')`) - the XSD lexical spaces are wider than the Turtle tokens (white space around "
+             "the number, '1.' for a decimal).  And every witness such a pattern accepts is read by the number tokenizer of the Turtle-family parser (the patterns "
+             "SinkParser.nodeOrLiteral tries, in its order) as ONE token.  \"1.\"^^xsd:decimal was written as the bare 1. (the dot ends the statement; the rest does not parse) "
+             "and \" 1 \"^^xsd:integer as 1, read back as another term", floor=3)
+    fn = lm.get("_literal_n3")
+    if fn is None:
+        raise AnalysisError("Literal._literal_n3 vanished")
+    me = _self_param(fn)
+    _blk, tokens = _shorthand_tokens(repo, tm, fn, me)
+    rets = [t for t in tokens if t.last.lit is not None and _own_text(t.last.mod, t.last.fn, t.at, t.expr, t.last.lit)]
+    if not rets:
+        raise AnalysisError("Literal._literal_n3: the shorthand block returns no bare token that is the literal's own text")
+    plain = H.module_assigns(tm).get("_PLAIN_LITERAL_TYPES", [])
+    plain_iris = {H.fold_str(repo, tm, e) for e in plain[0].elts} if len(plain) == 1 and isinstance(plain[0], (ast.Tuple, ast.List)) else set()
+    read = _turtle_number_reader(repo)
+    for t in rets:
+        r = t.at
+        subject = norm(t.expr)
+        at = H.atoms(t.last.facts)
+        # the datatype the token is written for, as far as the branch conditions tell (in every def on the way to the token)
+        cands = set(plain_iris)
+        for f in t.frames:
+            if f.lit is None:
+                continue
+            for e, pol in H.atoms(f.facts):
+                if isinstance(e, ast.Compare) and len(e.ops) == 1 and isinstance(e.ops[0], ast.Eq):
+                    for l, c in ((e.left, e.comparators[0]), (e.comparators[0], e.left)):
+                        if _attr_of(f.D.resolve(l) if isinstance(l, ast.Name) else l, ("datatype", "_datatype")) == f.lit:
+                            iri = H.fold_str(repo, f.mod, c)
+                            if iri is not None:
+                                cands = cands & {iri} if pol else cands - {iri}
+        dt = next(iter(cands)) if len(cands) == 1 else None
+        short = dt.rsplit("#", 1)[-1] if dt else "?"
+        tests = []
+        for e, pol in at:
+            g = _full_match_guard(repo, t.last.mod, e, pol, subject)
+            if g is not None:
+                tests.append(("pattern", g))
+            elif pol and isinstance(e, ast.Compare) and len(e.ops) == 1 and isinstance(e.ops[0], ast.In) and norm(e.left) == subject \
+                    and isinstance(e.comparators[0], (ast.Tuple, ast.List, ast.Set)) and e.comparators[0].elts \
+                    and all(isinstance(x, ast.Constant) and isinstance(x.value, str) for x in e.comparators[0].elts):
+                tests.append(("members", tuple(x.value for x in e.comparators[0].elts)))
+        rep.ob(rid, tm, "Literal._literal_n3", "bare token for xsd:%s: returned under a token test of the text" % short, bool(tests),
+               "" if tests else "the lexical form of a well-typed xsd:%s literal is written as a bare token without a full match against the token grammar: %s" %
+               (short, "\"1.\"^^xsd:decimal (valid in XSD) is written as 1. - not a token, the document does not parse" if short == "decimal" else
+                "\" 1 \"^^xsd:integer (white space is allowed in the XSD lexical space) is written with its white space and read back as \"1\"^^xsd:integer"), node=r)
+        for kind, g in tests:
+            if kind != "pattern":
+                continue
+            rx = _re.compile(g[0], g[1])
+            unread = [w for w in _TOKEN_WITNESSES if rx.fullmatch(w) and read(w) is None]
+            other = [w for w in _TOKEN_WITNESSES if rx.fullmatch(w) and read(w) is not None and dt is not None and read(w) != dt]
+            rep.ob(rid, tm, "Literal._literal_n3", "token pattern %s (xsd:%s): what it accepts is one token for the Turtle tokenizer" % (g[0], short), not unread,
+                   "" if not unread else "the pattern lets %s through, which SinkParser.nodeOrLiteral does not read as one number token" % ", ".join(repr(w) for w in unread[:4]), node=r)
+            if other:
+                _unrecorded(rep, rid, tm, "Literal._literal_n3", "token pattern %s (xsd:%s): what it accepts is read back with the same datatype" % (g[0], short),
+                            "the pattern lets %s through for an xsd:%s literal, which the Turtle tokenizer reads as <%s>: Literal(1e-7, datatype=XSD.decimal) is written as the bare "
+                            "1e-07 and read back as an xsd:double" % (", ".join(repr(w) for w in other[:4]), short, read(other[0])), r)
+
+
+# ---------------------------------------------------------------------- (ae)
+def _rule_ae_foreign_datatype(repo: Repo, rep: Report, tm, lm) -> None:
+    rid = "C07.ae-python-value-under-foreign-datatype"
+    rep.rule(rid,
+             "Literal.__new__, the arm that keeps the Python object given as the value (<value local> = <first argument>) and asks _castPythonToLiteral for the datatype of "
+             "its Python type: the caller's datatype is preferred to the type's own (<datatype> = f(<datatype>, <own datatype>)) only after an `if` that compares the two "
+             "(<datatype> != <own datatype>) and there re-makes the literal from the lexical form under the caller's datatype (a constructor call with datatype=<datatype> "
+             "whose result is returned).  Literal(0.1, datatype=XSD.decimal) kept the float as the value of an xsd:decimal term: it equals \"0.1\"^^xsd:decimal made from "
+             "text, whose value is Decimal('0.1'), but the two were ordered differently against Literal(Decimal('0.1000000000000000001'))", floor=1)
+    new = lm.get("__new__")
+    if new is None:
+        raise AnalysisError("Literal.__new__ vanished")
+    lex = _second_param(new)
+    locs = _slot_locals(tm, new)
+    V, T = locs["_value"], locs["_datatype"]
+    keeps = [a for a in own_nodes(new) if isinstance(a, ast.Assign) and len(a.targets) == 1 and norm(a.targets[0]) == V and isinstance(a.value, ast.Name) and a.value.id == lex]
+    if not keeps:
+        raise AnalysisError("Literal.__new__: no arm keeps the first argument as the value")
+    n = 0
+    for keep in keeps:
+        arm = _top_arm(new, tm, keep)
+        nodes = [x for s in arm for x in ast.walk(s)]
+        own_dt: set[str] = set()
+        for x in nodes:
+            if isinstance(x, ast.Assign) and isinstance(x.value, ast.Call) and norm(x.value.func) == "_castPythonToLiteral" and isinstance(x.targets[0], ast.Tuple) \
+                    and len(x.targets[0].elts) == 2 and isinstance(x.targets[0].elts[1], ast.Name):
+                own_dt.add(x.targets[0].elts[1].id)
+        if not own_dt:
+            continue
+        prefers = [x for x in nodes if isinstance(x, ast.Assign) and len(x.targets) == 1 and norm(x.targets[0]) == T
+                   and {T} | own_dt <= {y.id for y in ast.walk(x.value) if isinstance(y, ast.Name)} | {T} and any(isinstance(y, ast.Name) and y.id in own_dt for y in ast.walk(x.value))
+                   and any(isinstance(y, ast.Name) and y.id == T for y in ast.walk(x.value))]
+        for pf in prefers:
+            n += 1
+            remade = False
+            for st in H.earlier_siblings(tm, new, pf):
+                if not isinstance(st, ast.If):
+                    continue
+                compares = any(pol and isinstance(e, ast.Compare) and len(e.ops) == 1 and isinstance(e.ops[0], (ast.NotEq, ast.IsNot))
+                               and {norm(e.left), norm(e.comparators[0])} == {T, d} for e, pol in H.atoms([(st.test, True)]) for d in own_dt)
+                if not compares:
+                    continue
+                body = [x for s in st.body for x in ast.walk(s)]
+                made = {norm(x.targets[0]) for x in body if isinstance(x, ast.Assign) and isinstance(x.value, ast.Call)
+                        and norm(x.value.func).rsplit(".", 1)[-1] in ("__new__", "Literal", new.args.args[0].arg)
+                        and any(k.arg == "datatype" and norm(k.value) == T for k in x.value.keywords)}
+                direct = any(isinstance(x, ast.Return) and isinstance(x.value, ast.Call) and norm(x.value.func).rsplit(".", 1)[-1] in ("__new__", "Literal", new.args.args[0].arg)
+                             and any(k.arg == "datatype" and norm(k.value) == T for k in x.value.keywords) for x in body)
+                if direct or any(isinstance(x, ast.Return) and isinstance(x.value, ast.Name) and x.value.id in made for x in body):
+                    remade = True
+            rep.ob(rid, tm, "Literal.__new__", "the caller's datatype is preferred to the Python type's own after the two were compared and the literal re-made from its text", remade,
+                   "" if remade else "the Python object stays the value whatever datatype the caller gives: Literal(0.1, datatype=XSD.decimal) has the float 0.1 as its value, while the "
+                   "equal term made from the text \"0.1\" has Decimal('0.1'); the two are ordered differently against Literal(Decimal('0.1000000000000000001')), and "
+                   "Literal(1, datatype=XSD.boolean) has no ill_typed verdict", node=pf)
+    if n == 0:
+        raise AnalysisError("Literal.__new__: the statement that prefers the caller's datatype to that of the Python type was not found")
+
+
+# ---------------------------------------------------------------------- (af) NotImplemented is not a truth value
+_CMP_DUNDERS = ("__lt__", "__gt__", "__le__", "__ge__", "__eq__", "__ne__")
+
+
+def _may_answer_not_implemented(tm, cls: str, name: str, seen=()) -> bool:
+    """The method `name` as an instance of `cls` sees it (the class itself, then its bases in this module) has a
+    `return NotImplemented`, or hands back what another comparison method of the object returns that has one."""
+    if (cls, name) in seen or not tm.has(cls):
+        return False
+    c = tm.cls(cls)
+    meth = next((st for st in c.body if isinstance(st, ast.FunctionDef) and st.name == name), None)
+    if meth is None:
+        return any(_may_answer_not_implemented(tm, b.id, name, seen + ((cls, name),)) for b in c.bases if isinstance(b, ast.Name))
+    for n in own_nodes(meth):
+        if isinstance(n, ast.Return) and n.value is not None:
+            if isinstance(n.value, ast.Name) and n.value.id == "NotImplemented":
+                return True
+            for k in ast.walk(n.value):
+                if isinstance(k, ast.Name) and k.id == "NotImplemented":
+                    return True
+    return False
+
+
+def _truth_context(mod, node: ast.AST) -> bool:
+    """`node` is used for its truth value: the test of if / while / conditional expression / assert, an operand of
+    and / or / not, the argument of bool()."""
+    par = mod.parent.get(id(node))
+    if isinstance(par, (ast.If, ast.While, ast.IfExp, ast.Assert)) and par.test is node:
+        return True
+    if isinstance(par, ast.BoolOp):
+        return True
+    if isinstance(par, ast.UnaryOp) and isinstance(par.op, ast.Not):
+        return True
+    if isinstance(par, ast.Call) and isinstance(par.func, ast.Name) and par.func.id == "bool" and node in par.args:
+        return True
+    return False
+
+
+def _is_ni_test(test: ast.AST, name: str) -> Optional[bool]:
+    """True: `name is NotImplemented`; False: `name is not NotImplemented`; None: something else."""
+    if isinstance(test, ast.Compare) and len(test.ops) == 1 and isinstance(test.left, ast.Name) and test.left.id == name \
+            and isinstance(test.comparators[0], ast.Name) and test.comparators[0].id == "NotImplemented":
+        if isinstance(test.ops[0], (ast.Is, ast.Eq)):
+            return True
+        if isinstance(test.ops[0], (ast.IsNot, ast.NotEq)):
+            return False
+    return None
+
+
+def _leaves(block: list) -> bool:
+    if not block:
+        return False
+    last = block[-1]
+    if isinstance(last, (ast.Return, ast.Raise, ast.Continue, ast.Break)):
+        return True
+    if isinstance(last, ast.If):
+        return bool(last.orelse) and _leaves(last.body) and _leaves(last.orelse)
+    return False
+
+
+def _known_not_ni(mod, fn: ast.FunctionDef, use: ast.AST, name: str) -> bool:
+    """At `use` the local `name` is known not to be NotImplemented: the use sits in the branch of an `is (not)
+    NotImplemented` test that excludes it, or after such a test whose NotImplemented branch leaves the function."""
+    node: ast.AST = use
+    while node is not fn:
+        par = mod.parent.get(id(node))
+        if par is None:
+            return False
+        if isinstance(par, ast.If):
+            t = _is_ni_test(par.test, name)
+            if t is True and any(node is s for s in par.orelse):
+                return True
+            if t is False and any(node is s for s in par.body):
+                return True
+        for f in ("body", "orelse", "finalbody"):
+            blk = getattr(par, f, None)
+            if isinstance(blk, list) and any(node is s for s in blk):
+                i = next(k for k, s in enumerate(blk) if s is node)
+                for prev in blk[:i]:
+                    if isinstance(prev, ast.If):
+                        t = _is_ni_test(prev.test, name)
+                        if t is True and _leaves(prev.body):
+                            return True
+                        if t is False and prev.orelse and _leaves(prev.orelse):
+                            return True
+                    # re-binding of the name between the guard and the use is not looked for: the name is bound once (checked by the caller)
+        node = par
+    return False
+
+
+def _rule_af_not_implemented_is_no_truth_value(repo: Repo, rep: Report, tm) -> None:
+    rid = "C07.af-not-implemented-is-not-a-truth-value"
+    rep.rule(rid, "terms of different kinds, and a term and something that is not a term, are not ordered by accident: where an ordering method "
+             "of a term class (__lt__, __gt__, __le__, __ge__) asks another comparison method of the object that can answer NotImplemented, the "
+             "answer is not used as a truth value (NotImplemented is truthy: `if r: return True` made Literal(1) <= 5 and URIRef('a') >= 5 True) "
+             "unless it was compared with NotImplemented first", floor=4)
+    n = 0
+    for cname in [q for q, d in tm.defs.items() if isinstance(d, ast.ClassDef) and "." not in q]:
+        for mname, fn in tm.methods(cname).items():
+            if mname not in ("__lt__", "__gt__", "__le__", "__ge__"):
+                continue
+            where = "%s.%s" % (cname, mname)
+            stores: dict[str, int] = {}
+            for x in own_nodes(fn):
+                if isinstance(x, ast.Name) and isinstance(x.ctx, ast.Store):
+                    stores[x.id] = stores.get(x.id, 0) + 1
+            for c in own_nodes(fn):
+                if not (isinstance(c, ast.Call) and isinstance(c.func, ast.Attribute) and c.func.attr in _CMP_DUNDERS):
+                    continue
+                recv = c.func.value
+                if isinstance(recv, ast.Name) and recv.id == "self":
+                    target_cls = cname
+                elif isinstance(recv, ast.Call) and isinstance(recv.func, ast.Name) and recv.func.id == "super":
+                    bases = [b.id for b in tm.cls(cname).bases if isinstance(b, ast.Name)]
+                    target_cls = bases[0] if bases else cname
+                else:
+                    continue
+                if not _may_answer_not_implemented(tm, target_cls, c.func.attr):
+                    continue
+                n += 1
+                rep.analysed("rdflib.term." + where)
+                par = tm.parent.get(id(c))
+                bad = ""
+                if _truth_context(tm, c):
+                    bad = "the answer of %s is tested for truth where it is asked" % c.func.attr
+                elif isinstance(par, ast.Assign) and len(par.targets) == 1 and isinstance(par.targets[0], ast.Name):
+                    r = par.targets[0].id
+                    if stores.get(r, 0) != 1:
+                        bad = "the local %s that holds the answer is bound more than once: not judged" % r
+                    else:
+                        for u in own_nodes(fn):
+                            if isinstance(u, ast.Name) and u.id == r and isinstance(u.ctx, ast.Load) and _truth_context(tm, u) and not _known_not_ni(tm, fn, u, r):
+                                bad = "%s holds the answer and is tested for truth (line %d) where it may still be NotImplemented" % (r, u.lineno)
+                                break
+                rep.ob(rid, tm, where, c, not bad, bad and (bad + ": NotImplemented is truthy, so the comparison with an operand the method does not know answers True instead of "
+                       "leaving the decision to the other operand (TypeError for a non-term)"), node=c)
+    if n == 0:
+        raise AnalysisError("no ordering method of a term class asks another comparison method that can answer NotImplemented: rule C07.af has lost its anchor")
+
+
+# ====================================================================== the check: one rule layer per rule
+# Every rule is a layer of its own (vlib.core.layer): a rule that loses its anchor on the tree as it is, or on one of its
+# equivalent views, is judged alone - the other rules are not dragged along (run_check merges the views rule by rule).
+
+
+def _with_term(f):
+    """rule functions that take (repo, rep, tm[, lm]): look the module and the methods of Literal up inside the layer"""
+    import inspect
+
+    n = len(inspect.signature(f).parameters)
+
+    def g(repo: Repo, rep: Report) -> None:
+        tm = repo.mod("rdflib.term")
+        if n == 2:
+            f(repo, rep)
+        elif n == 3:
+            f(repo, rep, tm)
+        else:
+            f(repo, rep, tm, tm.methods("Literal"))
+
+    g.__name__ = f.__name__
+    return g
+
+
+_RULES = [
+    _rule_a_eq_hash, _rule_b_ordering, _rule_c_pickle, _rule_d_escape_tables, _rule_e_from_n3_context, _rule_f_sparql_absolute,
+    _rule_g_sparql_tabs, _rule_h_from_n3_covers,
+    _rule_i_constructor, _rule_j_duration_sign, _rule_k_converters, _rule_l_backslash_parity, _rule_m_plain_types, _rule_n_written_text,
+    _rule_p_language_folded, _rule_o_numbers_one_block, _rule_q_total_and_mirrored,
+    _rule_r_unescape_one_pass, _rule_s_number_grammar, _rule_t_digest_text, _rule_u_prepass,
+    _rule_v_decimal_text, _rule_w_copy, _rule_x_exclusion, _rule_y_verdict_full_match, _rule_z_le_ge, _rule_aa_ill_typed_split,
+    _rule_ab_one_order_key, _rule_ac_datatype_readable, _rule_ad_token_test, _rule_ae_foreign_datatype,
+    _rule_af_not_implemented_is_no_truth_value,
+]
+
+
+def run(repo: Repo, rep: Report) -> None:
+    rep.extra["explanation"] = EXPLANATION + _EXPLANATION_R_U + _EXPLANATION_V_AE + (
+        " Where a clause is about what an entry point does with a value (the lexical form, the quoted text, a bare token, two language tags or order keys, "
+        "the number patterns the Turtle tokenizer tries), the rule follows the value into the defs of the package the entry point hands it to (vlib/h_c07.py: "
+        "resolve_call, expand_calls, Copies, facts_at); each rule is a layer of its own, judged alone on the tree and on its equivalent views."
+    )
+    for f in _RULES:
+        _layer(rep, _with_term(f), repo)
